@@ -1,109 +1,251 @@
-"""C05 - attributes are total maps with defaults; sparse and dense storage agree (structural clauses)."""
+"""C05 - attributes are total maps with defaults; sparse and dense storage agree (structural clauses).
+
+Every rule reads the *paths* of the methods it is about (msa/rules/hd_sx.py: local names substituted, private helpers expanded,
+conditions split into atoms, literal tables unrolled) and decides its obligation on the paths / on decision tables over their
+atoms (hd_tt.py) or by tabulating a pure function on a finite domain (hd_eval.py).  A path whose shape is not understood gives
+`undecided`, never a violation; a violation names the recognised construct that contradicts the rule."""
 from __future__ import annotations
 import ast
 from .. import au, sym, order
-from ..flow import Flow
-from ..rules import common
+from ..core import AnalysisError
+from ..rules import hd_sx, hd_tt, hd_eval
+from ..rules.hd_sx import SX, TooComplex, src, walk_events
 
 MA = "mesh.mesh_attributes"
 DC = "mesh.data_container"
 
 EXPLANATION = (
-    "Static conformance of the attribute classes and their containers: bounds predicate of the dense storage under all "
-    "orderings and its dominance over every data access, growth alignment (every element append expands every attribute by "
-    "the number of appended elements, through members that exist), no hand-out of the shared mutable default, sibling "
-    "agreement of the accept/reject behaviour of the sparse and dense setters, cast table, expand/clear shape pairing. "
-    "Structural necessary conditions only.")
+    "Static conformance of the attribute classes and their containers, decided on the symbolic paths of each method (helpers "
+    "expanded, conditions split into atoms): bounds predicate of the dense storage under all orderings and its dominance over every "
+    "data access, growth alignment (on every path the attributes are expanded by exactly the number of appended elements, through "
+    "members that exist, for every attribute), no hand-out of the shared mutable default, fresh object per sparse entry, "
+    "agreement of the accept/reject decision of the sparse and dense setters under every feasible truth assignment of their "
+    "conditions, cast table and type defaults tabulated on the finite domain of attribute types, expand/clear/export state "
+    "equations. Structural necessary conditions only.")
 
 RULES = {
     "C05-O1": "ArrayAttribute rejects key iff key < 0 or key >= n_elem, and the check dominates every access to the storage",
-    "C05-G1": "every method that extends element storage calls attr._expand(k) for every attribute in the same block, k = number of appended elements, through resolvable members",
-    "C05-A1": "the stored default is handed out for an absent key only if it cannot be mutable (elemsize == 1) or through a copy",
+    "C05-G1": "on every path of every public container method the attributes are expanded (attr._expand for every attribute, unconditionally) by exactly the number of elements "
+              "the path appends, through resolvable members; a path that empties the element storage also drops (or empties) the attribute table",
+    "C05-A1": "the stored default is handed out for an absent key only if it cannot be mutable (elemsize == 1) or through a copy; a present key reads its stored value",
     "C05-A2": "the sparse storage keeps a fresh object per entry: a vector written into the dictionary never shares storage with the "
               "value the caller passed (nor, through it, with another entry)",
     "C05-D1": "the default of each attribute type is the zero / empty value of that type (vector defaults repeat it elemsize times); "
               "default_value is computed from (type, elemsize) when none was given",
     "C05-R1": "the dense read returns the scalar `_data[key, 0]` exactly when elemsize == 1 and the whole row otherwise; __len__ is n_elem / number of stored keys",
-    "C05-S1": "sparse and dense __setitem__ have the same ordered (guard, exception) list and store the same values, bounds check apart",
-    "C05-T1": "castable pairs are exactly reflexive + {(Bool,Int),(Bool,Float),(Int,Float)}",
-    "C05-C1": "_expand adds n rows and n to n_elem; clear keeps (n_elem, elemsize); dense creation is sized by the container",
+    "C05-S1": "sparse and dense __setitem__ accept and reject the same values under every feasible truth assignment of their conditions, bounds check apart; "
+              "accepted values passed the cast test (value type -> attribute type) and, for vectors, the exact-arity test",
+    "C05-T1": "castable pairs are exactly reflexive + {(Bool,Int),(Bool,Float),(Int,Float)} (function tabulated over the 5 x 5 type pairs)",
+    "C05-C1": "a new dense attribute is (n_elem, elemsize) rows of its default; _expand adds n default rows after the existing ones (concatenation or preallocate-copy-fill) and n to n_elem; "
+              "clear restores (n_elem, elemsize) defaults / an empty dictionary and resets every field the storage is rebuilt from; dense creation is sized by the container; "
+              "the sparse export is a default-filled block overwritten by every stored item at its index, computed from the current entries (no remembered export)",
 }
+
+BASIC_FIELDS = {"_data", "n_elem", "elemsize", "type", "default_value", "_default_value"}
+OPAQUE = ("_can_be_casted",)
 
 
 def run(ctx):
-    o1_bounds(ctx)
-    g1_growth(ctx)
-    a1_default_alias(ctx)
-    a2_stored_value_fresh(ctx)
-    s1_siblings(ctx)
-    t1_cast_table(ctx)
-    c1_expand_clear(ctx)
-    d1_defaults(ctx)
-    r1_dense_read(ctx)
+    for rule, f in (("C05-O1", o1_bounds), ("C05-G1", g1_growth), ("C05-A1", a1_default_alias), ("C05-A2", a2_stored_value_fresh),
+                    ("C05-S1", s1_siblings), ("C05-T1", t1_cast_table), ("C05-C1", c1_expand_clear), ("C05-C1", c1_init), ("C05-C1", c1_creation),
+                    ("C05-C1", c1_export), ("C05-D1", d1_defaults), ("C05-R1", r1_dense_read)):
+        try:
+            f(ctx)
+        except AnalysisError:
+            raise
+        except Exception as e:  # noqa - a shape the reader trips on is undecided, never a verdict
+            ctx.undecided(rule, ctx.site(MA, "<module>"), f"{f.__name__}: the rule could not read the code", f"{type(e).__name__}: {e}")
+
+
+# ---------------------------------------------------------------------------- shared
+def _paths(ctx, rule, modname, qual, cls=None, skip=OPAQUE, **kw):
+    """(fn, site, paths) - paths is None (and the obligation is recorded as undecided) when the function cannot be read"""
+    if cls is None and "." in qual:
+        cls = qual.rsplit(".", 1)[0]
+    fn = _method(ctx.repo, modname, qual)
+    site = ctx.site(modname, fn)
+    try:
+        kw.setdefault("keep_props", ("default_value", "dtype"))
+        ps = SX(ctx.repo, modname, cls, skip=skip, **kw).run(fn)
+    except (TooComplex, RecursionError) as e:
+        ctx.undecided(rule, site, f"{qual}: too many paths to read", str(e))
+        return fn, site, None
+    except AnalysisError:
+        raise
+    except Exception as e:  # noqa
+        ctx.undecided(rule, site, f"{qual}: the path reader failed", f"{type(e).__name__}: {e}")
+        return fn, site, None
+    bad = sorted({n for p in ps for n in p.notes})
+    if bad:
+        ctx.undecided(rule, site, f"{qual}: contains a statement the path reader does not model", "; ".join(bad))
+        return fn, site, None
+    return fn, site, ps
+
+
+def _method(repo, modname, qual):
+    """FunctionDef of `Class.method`, looked up through the bases of the class when the class itself does not define it"""
+    if repo.has_func(modname, qual) or "." not in qual:
+        return repo.func(modname, qual)
+    cname, mname = qual.rsplit(".", 1)
+    mod = repo.module(modname)
+    if cname in mod.classes:
+        got = repo.methods(mod, mod.classes[cname]).get(mname)
+        if got is not None and not any(src(d) == "abstractmethod" for d in got[1].decorator_list):
+            return got[1]
+    return repo.func(modname, qual)          # AnalysisError: the anchor is gone
+
+
+def is_default(e):
+    return au.is_self_attr(e, "default_value") or au.is_self_attr(e, "_default_value")
+
+
+def _has_name(e, nm):
+    return isinstance(e, ast.AST) and any(isinstance(n, ast.Name) and n.id == nm for n in ast.walk(e))
+
+
+def _self_fields(e):
+    return {n.attr for n in ast.walk(e) if au.is_self_attr(n)} if isinstance(e, ast.AST) else set()
+
+
+def _exc_name(p):
+    for ev in reversed(p.events):
+        if ev.kind == "raise":
+            e = ev.a.func if isinstance(ev.a, ast.Call) else ev.a
+            return src(e).split(".")[-1] if e is not None else "?"
+    return None
+
+
+def _elemsize_ok(conds, want):
+    """can the conditions about self.elemsize hold for an element size e with want(e)?  (e is a positive count)"""
+    def s(node):
+        if au.is_self_attr(node, "elemsize") or src(node) == "self._data.shape[1]":
+            return "e"
+        raise order.Unsupported(src(node))
+    def is_e(x):
+        return au.is_self_attr(x, "elemsize") or src(x) == "self._data.shape[1]"
+
+    def direct(x):
+        """the element size itself, or simple arithmetic on it"""
+        if is_e(x):
+            return True
+        if isinstance(x, ast.BinOp):
+            return (direct(x.left) and order.fold_const(x.right) is not None) or (direct(x.right) and order.fold_const(x.left) is not None)
+        return False
+
+    def about_e(t):
+        if isinstance(t, ast.Compare):
+            return any(direct(x) for x in [t.left] + list(t.comparators))
+        if isinstance(t, ast.Call):
+            return any(direct(a) for a in t.args)
+        return direct(t)
+    usable, unread = [], False
+    for t, pol in conds:
+        if not about_e(t):
+            continue
+        try:
+            order.Pred(s).collect(t)
+            usable.append((t, pol))
+        except order.Unsupported:
+            # a comparison of the element size with another quantity (the arity test) leaves the element size free
+            free = isinstance(t, ast.Compare) and len(t.ops) == 1 and type(t.ops[0]) in order.CMP and \
+                any(order.fold_const(x) is None and "elemsize" not in src(x) and "shape[1]" not in src(x) for x in (t.left, t.comparators[0]))
+            if not free:
+                unread = True
+    pred = order.Pred(s)
+    for e in (1, 2, 3, 4):
+        if want(e) and all(bool(pred.eval(t, {"e": e})) == pol for t, pol in usable):
+            return None if unread else True      # None: a condition on the element size is not understood, the answer is not known
+    return False
 
 
 # ---------------------------------------------------------------------------- O1
 def o1_bounds(ctx):
     repo = ctx.repo
-    fn = repo.func(MA, "ArrayAttribute._check_out_of_bounds")
-    site = ctx.site(MA, fn)
-    ps = au.params(fn, skip_self=True)
-    ifs = [st for st in fn.body if isinstance(st, ast.If)]
-    if len(ps) != 1 or len(ifs) != 1 or not any(isinstance(s, ast.Raise) for s in ifs[0].body):
-        ctx.fail("C05-O1", site, "_check_out_of_bounds is not a single `if <test>: raise` on its key", "")
-        return
-    key = ps[0]
+    for mname in ("__getitem__", "__setitem__"):
+        fn, site, ps = _paths(ctx, "C05-O1", MA, "ArrayAttribute." + mname)
+        if ps is None:
+            continue
+        params = au.params(fn, skip_self=True)
+        if not params:
+            ctx.undecided("C05-O1", site, f"ArrayAttribute.{mname} has no key parameter")
+            continue
+        key = params[0]
 
-    def s(node):
-        if isinstance(node, ast.Name) and node.id == key:
-            return "key"
-        if au.is_self_attr(node, "n_elem"):
-            return "n"
-        raise order.Unsupported(au.src(node))
-    try:
-        w, n = order.compare(ifs[0].test, "key < 0 or key >= n", s)
-    except order.Unsupported as e:
-        ctx.fail("C05-O1", site, "bounds test uses an operand other than the key and self.n_elem", str(e))
-        return
-    ctx.check(w is None, "C05-O1", site,
-              f"bounds test `{au.src(ifs[0].test)}` is not `key < 0 or key >= n_elem`",
-              f"differs for {w}: the dense storage must report every index outside the container, the container's size included",
-              note=f"{n} orderings")
-    exc = [au.src(r.exc.func) for r in au.walk(ifs[0]) if isinstance(r, ast.Raise) and isinstance(r.exc, ast.Call)]
-    ctx.check(any(x.endswith("OutOfBoundsError") for x in exc), "C05-O1", site, "out-of-bounds access does not raise OutOfBoundsError", "")
-    # dominance: in __getitem__/__setitem__ every access to self._data is preceded on all paths by the check
-    for name in ("__getitem__", "__setitem__"):
-        f = repo.func(MA, "ArrayAttribute." + name)
-        fs = ctx.site(MA, f)
-        kp = au.params(f, skip_self=True)[0]
-        bad = []
+        def s(node, _k=key):
+            if isinstance(node, ast.Name) and node.id == _k:
+                return "key"
+            t = src(node)
+            if t in ("self.n_elem", "len(self)", "len(self._data)", "self._data.shape[0]"):
+                return "n"
+            raise order.Unsupported(t)
+        pred = order.Pred(s)
+        pred.symbols.update({"key", "n"})
+        pred.consts.add(0)
+        unknown = []
 
-        def stmt(state, st, _kp=kp, _bad=bad):
-            for n in au.walk_ordered(st) if not hasattr(st, "loop") else []:
-                if isinstance(n, ast.Call) and isinstance(n.func, ast.Attribute) and au.is_self_attr(n.func, "_check_out_of_bounds") \
-                        and n.args and au.src(n.args[0]) == _kp:
-                    state = state | {"checked"}
-                if isinstance(n, ast.Subscript) and au.is_self_attr(n.value, "_data") and "checked" not in state:
-                    _bad.append(n)
-            return state
-        Flow(stmt, lambda s_, e: stmt(s_, ast.Expr(value=e))).run(f.body, frozenset())
-        ctx.check(not bad, "C05-O1", fs, f"ArrayAttribute.{name} reaches self._data without the bounds check on its key",
-                  "numpy would silently wrap a negative index / raise IndexError instead of OutOfBoundsError",
-                  note=f"{name}: check dominates storage access")
+        def bounds(conds):
+            out = []
+            for t, pol in conds:
+                if not _has_name(t, key):
+                    continue
+                try:
+                    pred.collect(t)
+                    out.append((t, pol))
+                except order.Unsupported:
+                    type_test = isinstance(t, ast.Call) and au.call_tail(t) in ("isinstance", "issubclass", "callable", "hasattr")
+                    if not type_test:
+                        unknown.append(src(t))       # a test on the key that the ordering domain cannot express: the verdict would not be sound
+            return out
+        info = []
+        n_access = 0
+        for p in ps:
+            acc = []
+            for ev, conds, _ in walk_events(p):
+                for e in hd_sx.exprs_of(ev):
+                    if any(isinstance(n, ast.Subscript) and au.is_self_attr(n.value, "_data") for n in ast.walk(e)):
+                        acc.append(bounds(conds))
+            if isinstance(p.ret, ast.AST) and any(isinstance(n, ast.Subscript) and au.is_self_attr(n.value, "_data") for n in ast.walk(p.ret)):
+                acc.append(bounds(p.conds))
+            n_access += len(acc)
+            info.append((p, bounds(p.conds), acc))
+        if unknown:
+            ctx.undecided("C05-O1", site, f"ArrayAttribute.{mname}: the key is compared in a way the ordering domain cannot express",
+                          "; ".join(sorted(set(unknown))))
+            continue
+        if n_access == 0:
+            ctx.undecided("C05-O1", site, f"ArrayAttribute.{mname}: no access to self._data[...] found on any path")
+            continue
+        verdict = None
+        for env in order.envs(pred.symbols, pred.consts):
+            if env["n"] < 0:
+                continue
+            oob = env["key"] < 0 or env["key"] >= env["n"]
+            w = {"key": env["key"], "n_elem": env["n"]}
+            for p, bc, acc in info:
+                if not all(bool(pred.eval(t, env)) == pol for t, pol in bc):
+                    continue
+                if oob:
+                    if any(all(bool(pred.eval(t, env)) == pol for t, pol in a) for a in acc):
+                        verdict = (f"ArrayAttribute.{mname} reaches self._data with a key outside the container",
+                                   f"e.g. {w}: numpy would silently wrap a negative index / raise IndexError instead of OutOfBoundsError - the dense "
+                                   f"storage must report every index outside the container, the container's size included")
+                    elif p.end != "raise" and bc:
+                        verdict = (f"ArrayAttribute.{mname} does not report a key outside the container", f"e.g. {w}: the path ends without raising")
+                    elif p.end == "raise" and bc and not (_exc_name(p) or "").endswith("OutOfBoundsError"):
+                        verdict = (f"ArrayAttribute.{mname}: out-of-bounds access raises {_exc_name(p)} instead of OutOfBoundsError", f"e.g. {w}")
+                elif p.end == "raise" and (_exc_name(p) or "").endswith("OutOfBoundsError"):
+                    verdict = (f"ArrayAttribute.{mname} rejects a key inside the container", f"e.g. {w}")
+                if verdict:
+                    break
+            if verdict:
+                break
+        if verdict:
+            ctx.fail("C05-O1", site, verdict[0], verdict[1])
+        else:
+            ctx.ok("C05-O1", site, f"{mname}: rejected iff key < 0 or key >= n_elem; the check dominates {n_access} storage access(es)")
 
 
 # ---------------------------------------------------------------------------- G1
-def _root(e):
-    """strip list(...), ._data/._elem/._adj wrappers: returns the source of the root collection."""
-    while True:
-        if isinstance(e, ast.Call) and au.call_tail(e) in ("list", "tuple") and len(e.args) == 1:
-            e = e.args[0]
-        elif isinstance(e, ast.Attribute) and e.attr in ("_data", "_elem", "_adj"):
-            e = e.value
-        else:
-            return au.src(e)
-
-
 def _class_members(repo, modname, clsname):
     mod = repo.module(modname)
     cls = repo.cls(modname, clsname)
@@ -121,395 +263,1465 @@ def _class_members(repo, modname, clsname):
     return names
 
 
-def g1_growth(ctx):
-    repo = ctx.repo
-    n_sites = 0
-    for clsname, storages in [("DataContainer", ("_data",)), ("CornerDataContainer", ("_elem", "_adj"))]:
-        cls = repo.cls(DC, clsname)
-        members = _class_members(repo, DC, clsname)
-        for fn in [st for st in cls.body if isinstance(st, ast.FunctionDef) and st.name != "__init__"]:
-            # growth statements of the primary storage
-            grows = []
-            for st in au.stmts(fn.body):
-                if isinstance(st, ast.AugAssign) and au.is_self_attr(st.target, storages[0]) and isinstance(st.op, ast.Add):
-                    grows.append((st, "len(%s)" % _root(st.value)))
-                elif isinstance(st, ast.Expr) and isinstance(st.value, ast.Call) and au.call_tail(st.value) in ("append",) \
-                        and isinstance(st.value.func, ast.Attribute) and au.is_self_attr(st.value.func.value, storages[0]):
-                    loops = [a for a in au.ancestors(st) if isinstance(a, ast.For)]
-                    if loops:
-                        grows.append((loops[0], "len(%s)" % _root(loops[0].iter)))
-                    else:
-                        grows.append((st, "1"))
-                elif isinstance(st, ast.Expr) and isinstance(st.value, ast.Call) and au.call_tail(st.value) == "extend" \
-                        and isinstance(st.value.func, ast.Attribute) and au.is_self_attr(st.value.func.value, storages[0]):
-                    grows.append((st, "len(%s)" % _root(st.value.args[0])))
-            for gst, count in grows:
-                n_sites += 1
-                site = ctx.site(DC, fn, gst)
-                blk, _ = au.enclosing_block(gst)
-                exp = None
-                for s in blk or []:
-                    if isinstance(s, ast.For) and au.src(s.iter) in ("self._attr.values()",) and isinstance(s.target, ast.Name):
-                        for c in au.calls(s):
-                            if au.call_tail(c) == "_expand" and isinstance(c.func.value, ast.Name) and c.func.value.id == s.target.id \
-                                    and len(c.args) == 1 and not au.guards(c, stop=s):
-                                exp = c
-                if exp is None:
-                    ctx.fail("C05-G1", site, f"{clsname}.{fn.name}: element storage grows without `for attr in self._attr.values(): attr._expand(k)` in the same block",
-                             "dense attributes would be shorter than their container after the append")
-                    continue
-                arg = exp.args[0]
-                # canonical count of the expand argument
-                if au.const(arg) == 1:
-                    got = "1"
-                elif isinstance(arg, ast.Call) and au.call_tail(arg) == "len" and arg.args:
-                    got = "len(%s)" % _root(arg.args[0])
-                elif isinstance(arg, ast.Attribute) and isinstance(arg.value, ast.Name):
-                    # member access on the appended object: must resolve on the class it is narrowed to
-                    narrowed = _narrowed_class(exp, arg.value.id)
-                    if narrowed in ("DataContainer", "CornerDataContainer"):
-                        mem = _class_members(repo, DC, narrowed)
-                        if arg.attr not in mem:
-                            ctx.fail("C05-G1", ctx.site(DC, fn, exp),
-                                     f"{clsname}.{fn.name}: `_expand({au.src(arg)})` - {narrowed} has no member `{arg.attr}`",
-                                     f"`c1 += c2` raises AttributeError as soon as c1 carries an attribute: neither container class "
-                                     f"defines `{arg.attr}` (its size is len(c2))")
-                            continue
-                        got = "len(%s)" % arg.value.id if arg.attr == "size" else au.src(arg)
-                    else:
-                        got = au.src(arg)
-                else:
-                    got = au.src(arg)
-                ctx.check(got == count, "C05-G1", ctx.site(DC, fn, exp),
-                          f"{clsname}.{fn.name}: attributes are expanded by {au.src(arg)} while {count} element(s) are appended",
-                          "every attribute must stay aligned with its container after an append",
-                          note=f"append of {count} / expand {got}")
-            # secondary storage grows with the primary (same block) - parallel arrays, see C02-P1
-    ctx.require_count("C05-G1 growth sites", n_sites, 6)
+class _GUndecided(Exception):
+    pass
 
 
-def _narrowed_class(node, name):
-    for t, pol in au.guards(node):
-        if pol and isinstance(t, ast.Call) and au.call_tail(t) == "isinstance" and len(t.args) == 2 \
-                and isinstance(t.args[0], ast.Name) and t.args[0].id == name and isinstance(t.args[1], ast.Name):
-            return t.args[1].id
+class _GFail(Exception):
+    def __init__(self, construct, what):
+        super().__init__(construct)
+        self.construct, self.what = construct, what
+
+
+P = sym.Poly
+
+
+def _len_atom(e):
+    """canonical polynomial of len(e)"""
+    while True:
+        if isinstance(e, ast.Call) and au.call_tail(e) in ("list", "tuple") and isinstance(e.func, ast.Name) and len(e.args) == 1 and not e.keywords:
+            e = e.args[0]
+        elif isinstance(e, ast.Attribute) and e.attr in ("_data", "_elem", "_adj") and not au.is_self_attr(e):
+            e = e.value
+        else:
+            break
+    if isinstance(e, (ast.List, ast.Tuple)) and not any(isinstance(x, ast.Starred) for x in e.elts):
+        return P.const(len(e.elts))
+    if isinstance(e, (ast.ListComp, ast.GeneratorExp)) and len(e.generators) == 1 and not e.generators[0].ifs:
+        return _len_atom(e.generators[0].iter)
+    if isinstance(e, ast.BinOp) and isinstance(e.op, ast.Add):
+        return _len_atom(e.left) + _len_atom(e.right)
+    if isinstance(e, ast.Subscript) and isinstance(e.value, ast.Call) and au.call_tail(e.value) == "zip" and len(e.value.args) == 1 \
+            and isinstance(e.value.args[0], ast.Starred) and isinstance(au.const(e.slice), int):
+        return _len_atom(e.value.args[0].value)          # one column of zip(*pairs) has one item per pair
+    return P.atom(f"len({src(e)})")
+
+
+def _understood(poly):
+    """all atoms are lengths of a parameter (or of a plain path under it)"""
+    import re
+    return all(re.fullmatch(r"len\((?!self\b)[A-Za-z_][\w\.]*\)", a) for a in poly.atoms())
+
+
+def _count_poly(e, conds, repo, where):
+    """polynomial of an `_expand` argument: integer literals, len(x), x.size / x.__len__() of a container, sums and products"""
+    def atom_of(n):
+        if isinstance(n, ast.Call) and au.call_tail(n) == "len" and isinstance(n.func, ast.Name) and len(n.args) == 1:
+            return _len_atom(n.args[0])
+        if isinstance(n, ast.Attribute) and not au.is_self_attr(n) and isinstance(n.value, ast.Name):
+            narrowed = None
+            for t, pol in conds:
+                if pol and isinstance(t, ast.Call) and au.call_tail(t) == "isinstance" and len(t.args) == 2 \
+                        and isinstance(t.args[0], ast.Name) and t.args[0].id == n.value.id and isinstance(t.args[1], ast.Name):
+                    narrowed = t.args[1].id
+            if narrowed in ("DataContainer", "CornerDataContainer"):
+                if n.attr not in _class_members(repo, DC, narrowed):
+                    raise _GFail(f"{where}: `_expand({src(e)})` - {narrowed} has no member `{n.attr}`",
+                                 f"`c1 += c2` raises AttributeError as soon as c1 carries an attribute: neither container class "
+                                 f"defines `{n.attr}` (its size is len(c2))")
+                if n.attr == "size":
+                    return _len_atom(n.value)
+            return None
+        return None
+    return sym.to_poly(e, atom_of=atom_of)
+
+
+def _is_attr_iter(it):
+    """`self._attr.values()` / `.items()` / `self._attr` (keys): returns the kind"""
+    if isinstance(it, ast.Call) and isinstance(it.func, ast.Attribute) and au.is_self_attr(it.func.value, "_attr") and not it.args:
+        return it.func.attr if it.func.attr in ("values", "items", "keys") else None
+    if isinstance(it, ast.Call) and au.call_tail(it) in ("list", "tuple", "iter") and len(it.args) == 1:
+        return _is_attr_iter(it.args[0])
+    if au.is_self_attr(it, "_attr"):
+        return "keys"
     return None
 
 
+def _attr_loop_expand(loop, kind, outer_conds, repo, where):
+    """polynomial by which ONE pass of `for attr in self._attr...` expands every attribute"""
+    tgt = loop.target
+    if kind == "values" and isinstance(tgt, ast.Name):
+        is_recv = lambda r: isinstance(r, ast.Name) and r.id == tgt.id
+        var = tgt.id
+    elif kind == "items" and isinstance(tgt, ast.Tuple) and len(tgt.elts) == 2 and isinstance(tgt.elts[1], ast.Name):
+        var = tgt.elts[1].id
+        is_recv = lambda r: isinstance(r, ast.Name) and r.id == var
+    elif kind == "keys" and isinstance(tgt, ast.Name):
+        var = tgt.id
+        is_recv = lambda r: isinstance(r, ast.Subscript) and au.is_self_attr(r.value, "_attr") and isinstance(r.slice, ast.Name) and r.slice.id == var
+    else:
+        raise _GUndecided("loop over the attributes with an unexpected target")
+    per_path = []
+    for b in loop.body:
+        tot = P.const(0)
+        for ev, conds, loops in walk_events(b):
+            if ev.kind == "call" and au.call_tail(ev.a) == "_expand" and isinstance(ev.a.func, ast.Attribute) and is_recv(ev.a.func.value):
+                if loops:
+                    raise _GUndecided("_expand called in a nested loop")
+                if len(ev.a.args) != 1 or ev.a.keywords:
+                    raise _GUndecided("_expand called with an unexpected signature")
+                tot = tot + _count_poly(ev.a.args[0], list(outer_conds) + conds, repo, where)
+        if b.end in ("return", "raise", "break"):
+            raise _GUndecided("the loop over the attributes can be left early")
+        per_path.append((b, tot))
+    polys = {repr(t): t for _, t in per_path}
+    if len(polys) == 1:
+        return per_path[0][1]
+    # some attributes are expanded, some are not: benign only when the ones left out are the sparse ones (their _expand does nothing)
+    full = [t for _, t in per_path if not t.is_zero()]
+    if len({repr(t) for t in full}) != 1:
+        raise _GUndecided("attributes are expanded by different amounts on different paths")
+    for b, t in per_path:
+        if not t.is_zero():
+            continue
+        dense_only = any(isinstance(c, ast.Call) and au.call_tail(c) == "isinstance" and len(c.args) == 2 and _has_name(c.args[0], var)
+                         and ((src(c.args[1]).endswith("ArrayAttribute") and not pol) or (src(c.args[1]).split(".")[-1] == "Attribute" and pol))
+                         for c, pol in b.conds)
+        if dense_only:
+            continue
+        about_attr = [au.canon_test(sym.subst(c, {var: ast.Name(id="attr", ctx=ast.Load())}), pol) for c, pol in b.conds if _has_name(c, var)]
+        if about_attr:
+            raise _GFail(f"{where}: attributes for which `{' and '.join(about_attr)}` are not expanded when the container grows",
+                         "dense attributes would be shorter than their container after the append (a dense attribute of an empty container "
+                         "has length 0 and is skipped for ever): every index is then reported out of bounds")
+        raise _GUndecided("the expansion of the attributes is conditional")
+    return full[0]
+
+
+def _grow_expand(p, storage, repo, where, outer=()):
+    """(elements appended to self.<storage>, expansion applied to every attribute, an attribute loop was seen) along one path"""
+    grow, exp, seen = P.const(0), P.const(0), False
+    for ev in p.events:
+        conds = list(outer) + p.conds[:ev.nconds]
+        if ev.kind == "call" and isinstance(ev.a.func, ast.Attribute) and au.is_self_attr(ev.a.func.value, storage):
+            t = ev.a.func.attr
+            if t in ("append", "insert"):
+                grow = grow + 1
+            elif t == "extend" and len(ev.a.args) == 1:
+                grow = grow + _len_atom(ev.a.args[0])
+            elif t == "clear" and not ev.a.args:
+                return None                                  # the storage is emptied in place: not a growth path
+            elif t in ("pop", "remove"):
+                raise _GUndecided(f"elements are removed from self.{storage}")
+        elif ev.kind == "aug" and au.is_self_attr(ev.a, storage):
+            if not isinstance(ev.c, ast.Add):
+                raise _GUndecided(f"self.{storage} is updated with {type(ev.c).__name__}")
+            grow = grow + _len_atom(ev.b)
+        elif ev.kind == "store" and au.is_self_attr(ev.a, storage):
+            v = ev.b
+            if isinstance(v, ast.BinOp) and isinstance(v.op, ast.Add) and au.is_self_attr(v.left, storage):
+                grow = grow + _len_atom(v.right)
+            else:
+                return None                                  # the storage is replaced (clear / reset): not a growth path
+        elif ev.kind == "loop":
+            kind = _is_attr_iter(ev.a)
+            if kind:
+                seen = True
+                exp = exp + _attr_loop_expand(ev.c, kind, conds, repo, where)
+                continue
+            per = set()
+            res = None
+            for b in ev.c.body:
+                r = _grow_expand(b, storage, repo, where, conds)
+                if r is None:
+                    raise _GUndecided("the storage is replaced inside a loop")
+                if b.end in ("return", "raise", "break") and not (r[0].is_zero() and r[1].is_zero()):
+                    raise _GUndecided("a loop that appends elements can be left early")
+                per.add((repr(r[0]), repr(r[1])))
+                res = r
+                seen = seen or r[2]
+            if len(per) > 1:
+                raise _GUndecided("the iterations of a loop append different numbers of elements")
+            if res is not None and not (res[0].is_zero() and res[1].is_zero()):
+                if not isinstance(ev.c.node, ast.For):
+                    raise _GUndecided("elements are appended in a while loop")
+                n = _len_atom(ev.a)
+                grow, exp = grow + n * res[0], exp + n * res[1]
+        elif ev.kind == "call" and au.call_tail(ev.a) == "_expand":
+            raise _GUndecided("_expand is called outside a loop over all the attributes")
+    return grow, exp, seen
+
+
+def g1_growth(ctx):
+    repo = ctx.repo
+    for clsname in ("DataContainer", "CornerDataContainer"):
+        cls = repo.cls(DC, clsname)
+        csite = ctx.site(DC, clsname)
+        # the storage whose length is the size of the container
+        storage = None
+        got = repo.methods(repo.module(DC), cls).get("__len__")
+        if got is not None:
+            try:
+                for p in SX(repo, DC, clsname, keep_props=()).run(got[1]):
+                    r = p.ret
+                    if p.end == "return" and isinstance(r, ast.Call) and au.call_tail(r) == "len" and r.args and au.is_self_attr(r.args[0]):
+                        storage = r.args[0].attr
+            except (TooComplex, RecursionError):
+                pass
+        if storage is None:
+            ctx.undecided("C05-G1", csite, f"{clsname}: the list whose length is the size of the container was not identified (__len__)")
+            continue
+        n_sites = 0
+        inherited = [(m, f) for nm, (m, f, owner) in sorted(repo.methods(repo.module(DC), cls).items())
+                     if owner is not cls and not any(src(d) == "abstractmethod" for d in f.decorator_list) and m.name.endswith(DC)]
+        for fmod, fn in [(repo.module(DC), st) for st in cls.body if isinstance(st, ast.FunctionDef)] + inherited:
+            if fn.name == "__init__" or (fn.name.startswith("_") and not fn.name.startswith("__")):
+                continue          # a private helper is read through the public methods that call it (it may leave the expansion to them)
+            where = f"{clsname}.{fn.name}"
+            site = ctx.site(DC, fn)
+            try:
+                ps = SX(repo, DC, clsname, keep_props=()).run(fn)
+            except (TooComplex, RecursionError) as e:
+                if any(au.is_self_attr(n, storage) for n in au.walk(fn)):
+                    ctx.undecided("C05-G1", site, f"{where}: too many paths to read", str(e))
+                continue
+            verdicts = []
+            for p in ps:
+                if p.end == "raise":
+                    continue
+                try:
+                    r = _grow_expand(p, storage, repo, where)
+                except _GFail as f:
+                    verdicts.append(("fail", f.construct, f.what))
+                    continue
+                except _GUndecided as u:
+                    verdicts.append(("und", str(u), ""))
+                    continue
+                if r is None:
+                    # the element storage is replaced: when it is emptied the attributes must go with it (or be emptied too)
+                    emptied = any(ev.kind == "store" and au.is_self_attr(ev.a, storage) and
+                                  (isinstance(ev.b, (ast.List, ast.Tuple)) and not ev.b.elts or src(ev.b) in ("list()", "[]")) for ev in p.events) or \
+                        any(ev.kind == "call" and isinstance(ev.a.func, ast.Attribute) and ev.a.func.attr == "clear" and au.is_self_attr(ev.a.func.value, storage)
+                            for ev in p.events)
+                    if emptied:
+                        attr_reset = any((ev.kind == "store" and au.is_self_attr(ev.a, "_attr") and (isinstance(ev.b, ast.Dict) and not ev.b.keys or src(ev.b) in ("dict()", "{}")))
+                                         or (ev.kind == "call" and isinstance(ev.a.func, ast.Attribute) and ev.a.func.attr == "clear" and au.is_self_attr(ev.a.func.value, "_attr"))
+                                         for ev in p.events)
+                        attr_other = any(ev.kind in ("store", "aug") and au.is_self_attr(ev.a, "_attr") for ev in p.events)
+                        resized = any(ev.kind in ("call", "store", "aug", "other") and lps and not (ev.kind == "call" and au.call_tail(ev.a) == "clear")
+                                      for ev, _, lps in walk_events(p))      # the attributes are visited and something else than clear() is done to them
+                        if attr_reset:
+                            verdicts.append(("ok", "container emptied together with its attributes", ""))
+                        elif attr_other or resized or p.notes:
+                            verdicts.append(("und", f"{where}: the container is emptied and its attributes are handled in a way that is not read", ""))
+                        else:
+                            verdicts.append(("fail", f"{where}: the container is emptied but keeps its attributes, whose size is not reset",
+                                             "a dense attribute keeps n_elem rows after the container was cleared: indices beyond the new size are accepted, "
+                                             "the export has more rows than the container"))
+                    continue
+                grow, exp, seen = r
+                if grow.is_zero() and exp.is_zero():
+                    continue
+                # an expansion spelled in a way that is not read (comprehension, map, helper outside the class ...)
+                unread = [ev for ev, _, lps in walk_events(p) if ev.kind in ("call", "other", "store", "aug") and not lps and not
+                          (ev.kind == "call" and isinstance(ev.a.func, ast.Attribute) and au.is_self_attr(ev.a.func.value))
+                          and any(isinstance(n, ast.Attribute) and (n.attr == "_expand" or au.is_self_attr(n, "_attr")) for e in hd_sx.exprs_of(ev) for n in ast.walk(e))]
+                if unread and grow != exp:
+                    verdicts.append(("und", f"{where}: the attributes are handled by `{src(unread[0].a)[:60]}`, which is not read", ""))
+                    continue
+                if p.notes:
+                    verdicts.append(("und", "; ".join(p.notes), ""))
+                    continue
+                if grow == exp:
+                    verdicts.append(("ok", f"append of {grow} / expand {exp}", ""))
+                elif not seen and exp.is_zero() and any((src(t) in ("self._attr", "len(self._attr)", "self._attr.keys()", "self._attr.values()") and not pol) or
+                                                        (src(t).replace(" ", "") in ("len(self._attr)==0", "self._attr=={}") and pol) for t, pol in p.conds):
+                    verdicts.append(("ok", "no attribute to expand on this path", ""))
+                elif not seen and exp.is_zero() and any(_has_name(t, "self") for t, _ in p.conds):
+                    verdicts.append(("und", f"{where}: the attributes are not expanded on a path that depends on the state of the container "
+                                            f"({' and '.join(au.canon_test(t, pol) for t, pol in p.conds if _has_name(t, 'self'))})", ""))
+                elif not seen and exp.is_zero():
+                    verdicts.append(("fail", f"{where}: element storage grows by {grow} without `attr._expand(...)` for every attribute",
+                                     "dense attributes would be shorter than their container after the append"))
+                elif _understood(grow) and _understood(exp):
+                    verdicts.append(("fail", f"{where}: attributes are expanded by {exp} while {grow} element(s) are appended",
+                                     "every attribute must stay aligned with its container after an append"))
+                else:
+                    verdicts.append(("und", f"{where}: appended {grow}, expanded {exp} - the two counts cannot be compared", ""))
+            if not verdicts:
+                continue
+            n_sites += 1
+            fails = [v for v in verdicts if v[0] == "fail"]
+            unds = [v for v in verdicts if v[0] == "und"]
+            seen_c = set()
+            for _, c, w in fails:
+                if c not in seen_c:
+                    seen_c.add(c)
+                    ctx.fail("C05-G1", site, c, w)
+            if not fails and unds:
+                ctx.undecided("C05-G1", site, f"{where}: growth of the container could not be matched with the expansion of its attributes",
+                              "; ".join(sorted({c for _, c, _ in unds})))
+            if not fails and not unds:
+                ctx.ok("C05-G1", site, f"{where}: " + "; ".join(sorted({c for _, c, _ in verdicts})))
+        if n_sites == 0:
+            ctx.undecided("C05-G1", csite, f"{clsname}: no method that appends to self.{storage} was recognised")
+
+
 # ---------------------------------------------------------------------------- A1
-def path_condition(node, fn):
-    """[(test, polarity)] that hold whenever `node` executes: enclosing guards plus the negation of every
-    preceding early exit (`if T: ... return/raise` without else) in the enclosing blocks."""
-    from ..flow import always_terminates
-    conds = list(au.guards(node, stop=fn))
-    cur = au.enclosing_stmt(node)
-    while cur is not None and cur is not fn:
-        blk, owner = au.enclosing_block(cur)
-        if blk is None:
-            break
-        for s in blk[:[id(x) for x in blk].index(id(cur))]:
-            if isinstance(s, ast.If) and not s.orelse and always_terminates(s.body):
-                conds.append((s.test, False))
-        cur = owner
-    return conds
+def _unview(v):
+    """strip the operations that give a view of the same array: x[:], x[...], x.view(), np.asarray(x), Vec(x), x.reshape(..), x.T"""
+    while True:
+        if isinstance(v, ast.Subscript) and (isinstance(v.slice, ast.Slice) and v.slice.lower is None and v.slice.upper is None and v.slice.step is None
+                                             or isinstance(v.slice, ast.Constant) and v.slice.value is Ellipsis):
+            v = v.value
+        elif isinstance(v, ast.Call) and isinstance(v.func, ast.Attribute) and v.func.attr in ("view", "reshape", "ravel", "squeeze", "transpose") \
+                and src(v.func.value) not in ("np", "numpy"):
+            v = v.func.value
+        elif isinstance(v, ast.Call) and au.call_tail(v) in ("asarray", "asanyarray", "Vec") and len(v.args) == 1 and not v.keywords:
+            v = v.args[0]
+        elif isinstance(v, ast.Attribute) and v.attr == "T":
+            v = v.value
+        else:
+            return v
+
+
+def _is_copy_of_default(v):
+    """copy-making call applied to the default"""
+    if isinstance(v, ast.Call):
+        t = au.call_tail(v)
+        if isinstance(v.func, ast.Attribute) and t in ("copy", "astype") and is_default(v.func.value):
+            return True
+        if t in ("copy", "deepcopy", "array") and v.args and is_default(v.args[0]):
+            return True
+        if t == "Vec" and len(v.args) == 1 and isinstance(v.args[0], ast.Call) and au.call_tail(v.args[0]) in ("list", "array", "copy") \
+                and v.args[0].args and is_default(v.args[0].args[0]):
+            return True
+        if t in ("copy", "array", "deepcopy") and v.args and _is_copy_of_default(v.args[0]):
+            return True
+        if isinstance(v.func, ast.Attribute) and t == "copy" and _is_copy_of_default(v.func.value):
+            return True
+    return False
 
 
 def a1_default_alias(ctx):
-    fn = ctx.repo.func(MA, "Attribute.__getitem__")
-    site = ctx.site(MA, fn)
-    b = sym.Bindings(fn)
+    fn, site, ps = _paths(ctx, "C05-A1", MA, "Attribute.__getitem__")
+    if ps is None:
+        return
+    params = au.params(fn, skip_self=True)
+    if not params:
+        ctx.undecided("C05-A1", site, "Attribute.__getitem__ has no key parameter")
+        return
+    key = params[0]
 
-    def is_default(e):
-        return au.is_self_attr(e, "default_value") or au.is_self_attr(e, "_default_value")
+    def membership(t):
+        return isinstance(t, ast.Compare) and len(t.ops) == 1 and isinstance(t.ops[0], (ast.In, ast.NotIn)) \
+            and src(t.left) == key and src(t.comparators[0]) in ("self._data", "self._data.keys()")
+
+    def lookup(e):
+        """self._data.get(key[, sentinel]) -> the sentinel source ('None' without one), else None"""
+        if isinstance(e, ast.Call) and isinstance(e.func, ast.Attribute) and e.func.attr == "get" and au.is_self_attr(e.func.value, "_data") \
+                and e.args and src(e.args[0]) == key and not e.keywords and len(e.args) <= 2:
+            return src(e.args[1]) if len(e.args) == 2 else "None"
+        return None
+
+    def sentinel_test(t):
+        """`self._data.get(key, S) is not S`: True when the comparison being TRUE means the key is present, False for the converse, None otherwise"""
+        if isinstance(t, ast.Compare) and len(t.ops) == 1 and isinstance(t.ops[0], (ast.Is, ast.IsNot)):
+            for a, b in ((t.left, t.comparators[0]), (t.comparators[0], t.left)):
+                sn = lookup(a)
+                if sn is not None and src(b) == sn and not any(is_default(x) for x in ast.walk(b)):
+                    return isinstance(t.ops[0], ast.IsNot)
+        return None
 
     def symf(node):
         if au.is_self_attr(node, "elemsize"):
             return "e"
-        r = b.resolve(node, at=node)
-        if isinstance(r, ast.Call) and au.call_tail(r) == "isinstance" and len(r.args) == 2 and is_default(b.resolve(r.args[0], at=node)) \
-                and au.src(r.args[1]).split(".")[-1] in ("ndarray", "Vec"):
+        if isinstance(node, ast.Call) and au.call_tail(node) == "isinstance" and len(node.args) == 2 and is_default(node.args[0]) \
+                and src(node.args[1]).split(".")[-1] in ("ndarray", "Vec"):
             return "arr"
-        return au.src(node)
-    rets = [st for st in au.stmts(fn.body) if isinstance(st, ast.Return) and st.value is not None]
-    n = 0
-    for r in rets:
-        v = b.resolve(r.value, at=r)
-        if not any(is_default(x) for x in au.walk(v)):
+        if isinstance(node, ast.Call) and au.call_tail(node) in ("isscalar",) and node.args and is_default(node.args[0]):
+            raise order.Unsupported("isscalar")
+        raise order.Unsupported(src(node))
+    n_default = n_present = 0
+    und = []
+    for p in ps:
+        # np.isscalar(default) is read as `not isinstance(default, np.ndarray)`
+        p.conds = [(ast.parse("isinstance(self.default_value, np.ndarray)", mode="eval").body, not pol)
+                   if isinstance(t, ast.Call) and au.call_tail(t) == "isscalar" and len(t.args) == 1 and is_default(t.args[0]) else (t, pol) for t, pol in p.conds]
+        present = None
+        for t, pol in p.conds:
+            if membership(t):
+                present = pol if isinstance(t.ops[0], ast.In) else not pol
+            if sentinel_test(t) is not None:
+                present = pol if sentinel_test(t) else not pol
+            if isinstance(t, ast.Call) and src(t.func) == "__except__":
+                present = False
+        if p.end != "return" or p.ret is None:
+            if present is False:
+                ctx.fail("C05-A1", site, f"Attribute.__getitem__ {'raises ' + str(_exc_name(p)) if p.end == 'raise' else 'returns nothing'} for an absent key",
+                         "an attribute must be a total map: an absent key reads the default")
+                return
             continue
-        n += 1
-        fresh = isinstance(v, ast.Call) and au.call_tail(v) in ("copy", "deepcopy", "array")
-        if fresh:
-            ctx.ok("C05-A1", ctx.site(MA, fn, r), "default handed out through a copy")
-            continue
-        conds = path_condition(r, fn)
-        pred = order.Pred(symf)
-        usable = []
-        for t, pol in conds:
-            try:
-                pred.collect(t)
-                usable.append((t, pol))
-            except order.Unsupported:
-                pass  # a condition the domain cannot express is dropped (weaker path condition: sound for alarms only if
-                      # the remaining conditions already exclude the bad case, which is what is checked)
-        conds = usable
-        pred.symbols.update({"e", "?arr"})
-        pred.consts.add(1)
-        witness = None
-        for env in order.envs(pred.symbols, pred.consts):
-            if env["e"] < 1 or env["e"] != int(env["e"]):
-                continue
-            holds = all(bool(pred.eval(t, env)) == pol for t, pol in conds)
-            if holds and not (env["e"] == 1 or not env["?arr"]):
-                witness = {k: v_ for k, v_ in env.items() if k in ("e", "?arr")}
-                break
-        ctx.check(witness is None, "C05-A1", ctx.site(MA, fn, r),
-                  "Attribute.__getitem__ hands out the stored default object for every absent key, vector defaults included",
-                  "for elemsize > 1 the default is one shared Vec: `attr[i] += v` on an absent i mutates it, and every other absent "
-                  f"key then reads the changed value (un-copied return reachable with elemsize={witness and witness['e']}, default an array)",
-                  note="default returned un-copied only when it cannot be a mutable array")
-    if n == 0:
-        ctx.fail("C05-A1", site, "Attribute.__getitem__ no longer returns the default for absent keys", "an attribute must be a total map")
-    # the lookup itself: `if key in self._data: return self._data[key]`
-    ok = any(isinstance(st, ast.If) and isinstance(st.test, ast.Compare) and isinstance(st.test.ops[0], ast.In)
-             and au.is_self_attr(st.test.comparators[0], "_data") and any(isinstance(s, ast.Return) and isinstance(s.value, ast.Subscript)
-             and au.is_self_attr(s.value.value, "_data") and au.same(s.value.slice, st.test.left) for s in st.body) for st in fn.body)
-    ctx.check(ok, "C05-A1", site, "Attribute.__getitem__ does not return the stored value of a present key", "")
-
-
-# ---------------------------------------------------------------------------- S1
-def _raise_summary(fn, skip_calls=("_check_out_of_bounds",)):
-    key, val = au.params(fn, skip_self=True)[:2]
-    ren = {key: "KEY", val: "VALUE"}
-    out, stores = [], []
-
-    def n(e):
-        return au.norm(sym.subst(e, {k: ast.Name(id=v, ctx=ast.Load()) for k, v in ren.items()}))
-    b = sym.Bindings(fn)
-    for st in au.stmts(fn.body):
-        if isinstance(st, ast.Raise) and st.exc is not None:
-            gs = [(n(b.resolve(t, at=st)), pol) for t, pol in au.guards(st, stop=fn)]
-            exc = au.src(st.exc.func) if isinstance(st.exc, ast.Call) else au.src(st.exc)
-            out.append((tuple(gs), exc.split(".")[-1]))
-        if isinstance(st, ast.Assign) and isinstance(st.targets[0], ast.Subscript) and au.is_self_attr(st.targets[0].value, "_data"):
-            gs = [(n(t), pol) for t, pol in au.guards(st, stop=fn)]
-            stores.append((tuple(gs), n(st.targets[0].slice), n(b.resolve(st.value, at=st))))
-    return out, stores
-
-
-def s1_siblings(ctx):
-    repo = ctx.repo
-    a = repo.func(MA, "Attribute.__setitem__")
-    d = repo.func(MA, "ArrayAttribute.__setitem__")
-    ra, sa = _raise_summary(a)
-    rd, sd = _raise_summary(d)
-    site = ctx.site(MA, d)
-    ctx.check(ra == rd and len(ra) >= 3, "C05-S1", site,
-              "sparse and dense __setitem__ reject different values (ordered (guard, exception) lists differ)",
-              f"sparse: {[(len(g), e) for g, e in ra]} dense: {[(len(g), e) for g, e in rd]} - both storages must accept and reject "
-              f"the same values (bool->int->float widening only, exact arity)", note=f"{len(ra)} rejecting paths agree")
-    ctx.check(sa == sd and len(sa) >= 2, "C05-S1", site,
-              "sparse and dense __setitem__ store different values for the same input", "both storages must hold the same answers")
-    # both must consult the cast table with (value type, attribute type) in that order
-    for fn in (a, d):
-        cs = [c for c in au.calls(fn) if au.call_tail(c) == "_can_be_casted"]
-        ok = len(cs) >= 2 and all(len(c.args) == 2 and au.is_self_attr(c.args[1], "type") for c in cs)
-        ctx.check(ok, "C05-S1", ctx.site(MA, fn), f"{fn.name}: cast check is not _can_be_casted(type of value, self.type) on both arities",
-                  "widening is only allowed from the value's type to the attribute's type")
-
-
-# ---------------------------------------------------------------------------- T1
-def t1_cast_table(ctx):
-    fn = ctx.repo.func(MA, "_BaseAttribute._can_be_casted")
-    site = ctx.site(MA, fn)
-    ps = au.params(fn)
-    pairs = None
-    for n in au.walk(fn):
-        if isinstance(n, ast.Set) and n.elts and all(isinstance(e, ast.Tuple) and len(e.elts) == 2 for e in n.elts):
-            pairs = {tuple(au.src(x).split(".")[-1] for x in e.elts) for e in n.elts}
-    want = {("Bool", "Int"), ("Bool", "Float"), ("Int", "Float")}
-    ctx.check(pairs == want, "C05-T1", site, f"cast table is {sorted(pairs) if pairs else None}",
-              f"only bool->int->float widening is allowed: expected {sorted(want)}", note="cast table")
-    refl = any(isinstance(st, ast.If) and isinstance(st.test, ast.Compare) and isinstance(st.test.ops[0], ast.Eq)
-               and {au.src(st.test.left), au.src(st.test.comparators[0])} == set(ps[:2])
-               and isinstance(st.body[0], ast.Return) and au.const(st.body[0].value) is True for st in fn.body)
-    ctx.check(refl, "C05-T1", site, "identical types are no longer accepted first", "")
-    rets = [st for st in fn.body if isinstance(st, ast.Return)]
-    ok = rets and isinstance(rets[-1].value, ast.Compare) and isinstance(rets[-1].value.ops[0], ast.In) \
-        and isinstance(rets[-1].value.left, ast.Tuple) and [au.src(x) for x in rets[-1].value.left.elts] == ps[:2]
-    ctx.check(bool(ok), "C05-T1", site, "cast decision is not `(ta, tb) in casts` in (from, to) order",
-              "swapping the pair would allow float -> int narrowing")
-
-
-# ---------------------------------------------------------------------------- C1
-def c1_expand_clear(ctx):
-    repo = ctx.repo
-    fn = repo.func(MA, "ArrayAttribute._expand")
-    site = ctx.site(MA, fn)
-    n = au.params(fn, skip_self=True)[0]
-    rows = None
-    for c in au.calls(fn):
-        if au.call_tail(c) == "full" and c.args and isinstance(c.args[0], ast.Tuple) and len(c.args[0].elts) == 2:
-            rows = (au.src(c.args[0].elts[0]), au.src(c.args[0].elts[1]), au.src(c.args[1]) if len(c.args) > 1 else None)
-    ctx.check(rows is not None and rows[0] == n and rows[1] == "self.elemsize" and rows[2] == "self.default_value", "C05-C1", site,
-              f"_expand adds a block of shape/value {rows} instead of ({n}, self.elemsize) filled with the default",
-              "new elements must read the default value")
-    inc = [st for st in fn.body if isinstance(st, ast.AugAssign) and au.is_self_attr(st.target, "n_elem")
-           and isinstance(st.op, ast.Add) and au.src(st.value) == n]
-    ctx.check(len(inc) == 1, "C05-C1", site, "_expand does not add n to self.n_elem exactly once",
-              "the bounds check would reject the new elements (or accept too many)")
-    cat = [c for c in au.calls(fn) if au.call_tail(c) == "concatenate"]
-    ok = len(cat) == 1 and isinstance(cat[0].args[0], (ast.Tuple, ast.List)) and au.is_self_attr(cat[0].args[0].elts[0], "_data")
-    ctx.check(bool(ok), "C05-C1", site, "_expand does not append the new rows after the existing ones", "existing values must be kept in place")
-    fn = repo.func(MA, "ArrayAttribute.clear")
-    site = ctx.site(MA, fn)
-    shape = None
-    for c in au.calls(fn):
-        if au.call_tail(c) == "full" and c.args and isinstance(c.args[0], ast.Tuple):
-            shape = [au.src(x) for x in c.args[0].elts] + [au.src(c.args[1]) if len(c.args) > 1 else None]
-    touches_n = any(au.is_self_attr(t, "n_elem") for st in au.stmts(fn.body) for t in au.assign_targets(st))
-    ctx.check(shape == ["self.n_elem", "self.elemsize", "self.default_value"] and not touches_n, "C05-C1", site,
-              f"ArrayAttribute.clear rebuilds storage of shape/value {shape} (or changes n_elem)",
-              "after clear every index of the container must read the default")
-    fn = repo.func(MA, "Attribute.clear")
-    ok = any(isinstance(st, ast.Assign) and au.is_self_attr(st.targets[0], "_data") and
-             (isinstance(st.value, ast.Dict) and not st.value.keys or au.src(st.value) == "dict()") for st in fn.body)
-    ctx.check(ok, "C05-C1", ctx.site(MA, fn), "Attribute.clear does not empty the dictionary", "")
-    # dense creation sized by the container
-    fn = repo.func(DC, "_BaseDataContainer.create_attribute")
-    ok = False
-    for c in au.calls(fn):
-        if au.call_tail(c) == "ArrayAttribute" and len(c.args) >= 2:
-            a = c.args[1]
-            if isinstance(a, ast.IfExp):
-                ok = au.src(a.body) == "len(self)" and au.src(a.test) == "size is None"
+        v = p.ret
+        stored = isinstance(v, ast.Subscript) and au.is_self_attr(v.value, "_data") and src(v.slice) == key
+        stored = stored or (present is True and lookup(v) is not None and not any(is_default(x) for x in ast.walk(v)))
+        getcall = isinstance(v, ast.Call) and isinstance(v.func, ast.Attribute) and v.func.attr == "get" and au.is_self_attr(v.func.value, "_data") \
+            and v.args and src(v.args[0]) == key
+        if present is True or (present is None and stored):
+            n_present += 1
+            if stored:
+                ctx.ok("C05-A1", site, "a present key reads its stored value")
+            elif any(is_default(x) for x in ast.walk(v)):
+                ctx.fail("C05-A1", site, "Attribute.__getitem__ returns the default instead of the stored value of a present key",
+                         "an attribute answers the last value written at an index")
             else:
-                ok = au.src(a) == "len(self)"
-    ctx.check(ok, "C05-C1", ctx.site(DC, fn), "dense attributes are not created with the container's current size", "")
-    # sparse export: full(container_size, default) then every stored item written at its index
-    fn = repo.func(MA, "Attribute.as_array")
-    site = ctx.site(MA, fn)
-    ok = False
-    for st in au.stmts(fn.body):
-        if isinstance(st, ast.For) and au.src(st.iter) == "self._data.items()" and isinstance(st.target, ast.Tuple):
-            i, x = (e.id for e in st.target.elts)
-            ok = any(isinstance(s, ast.Assign) and isinstance(s.targets[0], ast.Subscript) and au.src(s.value) == x
-                     and au.src(s.targets[0].slice.elts[0] if isinstance(s.targets[0].slice, ast.Tuple) else s.targets[0].slice) == i
-                     for s in st.body)
-    full = [c for c in au.calls(fn) if au.call_tail(c) == "full"]
-    ok = ok and len(full) == 1 and len(full[0].args) >= 2 and au.src(full[0].args[1]) == "self.default_value"
-    ctx.check(ok, "C05-C1", site, "sparse as_array is not `full(default)` overwritten by every stored item at its index",
-              "array export of the sparse storage must give the same answers as reading entry by entry")
+                und.append(f"a present key reads `{src(v)}`")
+            continue
+        # absent key (or no membership test on the path)
+        bare = is_default(_unview(v)) or (getcall and len(v.args) == 2 and is_default(_unview(v.args[1])))
+        if getcall:
+            n_present += 1
+        if bare:
+            n_default += 1
+            pred = order.Pred(symf)
+            usable = []
+            for t, pol in p.conds:
+                try:
+                    order.Pred(symf).collect(t)
+                    pred.collect(t)
+                    usable.append((t, pol))
+                except order.Unsupported:
+                    pass  # a condition outside the domain is dropped: weaker path condition, alarm only if the rest does not exclude the bad case
+            dropped = [au.canon_test(t, pol) for t, pol in p.conds if (t, pol) not in usable and not membership(t) and sentinel_test(t) is None
+                       and (any(is_default(x) for x in ast.walk(t)) or "elemsize" in src(t))]
+            if dropped:
+                und.append(f"the default is returned un-copied under a condition that is not understood: {' and '.join(dropped)}")
+                continue
+            pred.symbols.update({"e", "?arr"})
+            pred.consts.add(1)
+            witness = None
+            for env in order.envs(pred.symbols, pred.consts):
+                if env["e"] < 1 or env["e"] != int(env["e"]):
+                    continue
+                if all(bool(pred.eval(t, env)) == pol for t, pol in usable) and not (env["e"] == 1 or not env["?arr"]):
+                    witness = env
+                    break
+            ctx.check(witness is None, "C05-A1", site,
+                      "Attribute.__getitem__ hands out the stored default object for every absent key, vector defaults included",
+                      "for elemsize > 1 the default is one shared Vec: `attr[i] += v` on an absent i mutates it, and every other absent "
+                      f"key then reads the changed value (un-copied return reachable with elemsize={witness and witness['e']}, default an array)",
+                      note="default returned un-copied only when it cannot be a mutable array")
+        elif _is_copy_of_default(v):
+            n_default += 1
+            ctx.ok("C05-A1", site, "default handed out through a copy")
+        elif present is False and not any(is_default(x) for x in ast.walk(v)) and not _has_name(v, "self"):
+            ctx.fail("C05-A1", site, f"Attribute.__getitem__ returns `{src(v)}` instead of the default for an absent key",
+                     "an attribute must be a total map: an absent key reads the default")
+            return
+        else:
+            und.append(f"returns `{src(v)}`")
+    if und or n_default == 0 or n_present == 0:
+        ctx.undecided("C05-A1", site, "Attribute.__getitem__: the lookup is not `stored value if the key is present else (a copy of) the default`",
+                      "; ".join(und) or f"{n_present} present-key path(s), {n_default} default path(s) recognised")
 
 
 # ---------------------------------------------------------------------------- A2
 def a2_stored_value_fresh(ctx):
     from ..rules import alias
     fr = alias.Freshness(ctx.repo)
-    fn = ctx.repo.func(MA, "Attribute.__setitem__")
-    site = ctx.site(MA, fn)
-    key, val = au.params(fn, skip_self=True)[:2]
-    b = sym.Bindings(fn)
+    fn, site, ps = _paths(ctx, "C05-A2", MA, "Attribute.__setitem__")
+    if ps is None:
+        return
+    params = au.params(fn, skip_self=True)
+    if len(params) < 2:
+        ctx.undecided("C05-A2", site, "Attribute.__setitem__ has no (key, value) parameters")
+        return
+    val = params[1]
     n = 0
-    for st in au.stmts(fn.body):
-        if isinstance(st, ast.Assign) and isinstance(st.targets[0], ast.Subscript) and au.is_self_attr(st.targets[0].value, "_data"):
-            # only the vector branch can hold a mutable object (scalars are immutable python values)
-            vector_branch = any(pol and "elemsize" in au.src(t) for t, pol in au.guards(st, stop=fn))
-            if not vector_branch:
+    und = []
+    seen = set()
+    for p in ps:
+        if p.end == "raise":
+            continue
+        for ev, conds, loops in walk_events(p):
+            if ev.kind == "aug" and isinstance(ev.a, ast.Subscript) and au.is_self_attr(ev.a.value, "_data"):
+                und.append("in-place update of a stored entry")
+            if not (ev.kind == "store" and isinstance(ev.a, ast.Subscript) and au.is_self_attr(ev.a.value, "_data")):
+                continue
+            # only a vector entry can be a mutable object (scalars are immutable python values)
+            vec = _elemsize_ok(conds, lambda e: e > 1)
+            if vec is False:
                 continue
             n += 1
-            v = b.resolve(st.value, at=st, keep=(val,))
+            v = ev.b
+            if vec is None:
+                if fr.aliases(v) & {val} or not fr.is_fresh(v):
+                    und.append("a value is stored under a condition on the element size that is not understood")
+                continue
             shares = fr.aliases(v) & {val}
-            # IfExp / nested: any branch aliasing the parameter
-            for sub in au.walk(v):
-                if isinstance(sub, ast.IfExp):
-                    shares |= (fr.aliases(sub.body) | fr.aliases(sub.orelse)) & {val}
-            ctx.check(not shares and fr.is_fresh(v), "C05-A2", ctx.site(MA, fn, st),
-                      f"sparse __setitem__ stores `{au.src(st.value)}`, which may share storage with the value passed by the caller",
-                      "Vec(x) / np.asarray(x) of an array are views: writing the same array at two indices (or attr[j] = attr[i]) and "
-                      "then updating one entry in place changes the other; the dense storage copies, so sparse and dense disagree",
-                      note="stored vector rebuilt from a list of scalars")
-    ctx.check(n >= 1, "C05-A2", site, "sparse __setitem__ no longer has a vector branch storing into self._data", "")
+            k = src(v)
+            # on a path where the value is known not to be an array, Vec(value) / np.asarray(value) allocate
+            not_array = any(isinstance(t, ast.Call) and au.call_tail(t) == "isinstance" and len(t.args) == 2 and src(t.args[0]) == val and
+                            ((src(t.args[1]).split(".")[-1] in ("ndarray", "Vec") and not pol) or (src(t.args[1]) in ("list", "tuple") and pol)) for t, pol in conds)
+            if shares and not_array and isinstance(v, ast.Call):
+                ctx.ok("C05-A2", ctx.site(MA, fn, ev.node), "value is not an array on this path: the conversion allocates")
+            elif shares:
+                if k not in seen:
+                    seen.add(k)
+                    ctx.fail("C05-A2", ctx.site(MA, fn, ev.node), f"sparse __setitem__ stores `{k}`, which may share storage with the value passed by the caller",
+                             "Vec(x) / np.asarray(x) of an array are views: writing the same array at two indices (or attr[j] = attr[i]) and "
+                             "then updating one entry in place changes the other; the dense storage copies, so sparse and dense disagree")
+            elif fr.is_fresh(v):
+                ctx.ok("C05-A2", ctx.site(MA, fn, ev.node), "stored vector rebuilt from the components of the value")
+            else:
+                und.append(f"stores `{k}`")
+    if und:
+        ctx.undecided("C05-A2", site, "sparse __setitem__: cannot tell whether the stored vector is a fresh object", "; ".join(sorted(set(und))))
+    elif n == 0:
+        ctx.undecided("C05-A2", site, "sparse __setitem__: no path storing a vector value into self._data was recognised")
 
 
-# ---------------------------------------------------------------------------- D1
+# ---------------------------------------------------------------------------- S1
+def _rename(e, mapping):
+    return sym.subst(e, {k: ast.Name(id=v, ctx=ast.Load()) for k, v in mapping.items()})
+
+
+class _Unlist(ast.NodeTransformer):
+    """len(list(x)) -> len(x), list(x)[k] -> x[k]  (the same numbers)"""
+    def visit_Call(self, n):
+        self.generic_visit(n)
+        if isinstance(n.func, ast.Name) and n.func.id == "len" and len(n.args) == 1 and isinstance(n.args[0], ast.Call) \
+                and isinstance(n.args[0].func, ast.Name) and n.args[0].func.id in ("list", "tuple") and len(n.args[0].args) == 1:
+            n.args = [n.args[0].args[0]]
+        return n
+
+    def visit_Subscript(self, n):
+        self.generic_visit(n)
+        if isinstance(n.value, ast.Call) and isinstance(n.value.func, ast.Name) and n.value.func.id in ("list", "tuple") and len(n.value.args) == 1 \
+                and not isinstance(n.slice, ast.Slice):
+            n.value = n.value.args[0]
+        return n
+
+
+def _unlist(e):
+    return _Unlist().visit(hd_sx.clone(e))
+
+
+def _symbols(conds_list):
+    out = set()
+    for conds in conds_list:
+        for t, _ in conds:
+            if isinstance(t, ast.Compare):
+                out.update(src(x) for x in [t.left] + list(t.comparators) if not isinstance(x, ast.Constant))
+            else:
+                out.add(src(t))
+    return out
+
+
+def _content(e):
+    """the numbers a stored expression holds, container / dtype conversions stripped: Vec(list(x)), np.array(x), np.asarray(x, dtype=..) -> x"""
+    while isinstance(e, ast.Call) and au.call_tail(e) in ("Vec", "array", "asarray", "list", "tuple", "copy", "astype") and (e.args or isinstance(e.func, ast.Attribute)):
+        if e.args and au.call_tail(e) != "astype" and not (au.call_tail(e) == "copy" and isinstance(e.func, ast.Attribute) and src(e.func.value) not in ("np", "numpy")):
+            if len(e.args) > 1 and au.call_tail(e) == "Vec":
+                break
+            e = e.args[0]
+        elif isinstance(e.func, ast.Attribute) and src(e.func.value) not in ("np", "numpy"):
+            e = e.func.value
+        else:
+            break
+    return e
+
+
+def _setter_summary(fn, ps):
+    """[(conditions, outcome, path)] with parameters renamed KEY / VALUE and the bounds test taken out"""
+    params = au.params(fn, skip_self=True)
+    ren = {params[0]: "KEY", params[1]: "VALUE"}
+    out = []
+    for p in ps:
+        exc = _exc_name(p) if p.end == "raise" else None
+        if exc and exc.endswith("OutOfBoundsError"):
+            continue
+        conds = []
+        for t, pol in p.conds:
+            t = _unlist(_rename(t, ren))
+            if _has_name(t, "KEY"):
+                continue
+            conds.append((t, pol))
+        stores = [(src(_rename(ev.a.slice, ren)), src(_content(_rename(ev.b, ren)))) for ev, _, _ in walk_events(p)
+                  if ev.kind == "store" and isinstance(ev.a, ast.Subscript) and au.is_self_attr(ev.a.value, "_data")]
+        if p.end == "raise":
+            outcome = ("reject", exc)
+        elif stores:
+            outcome = ("store",) + stores[-1]
+        else:
+            outcome = ("nothing",)
+        out.append((conds, outcome, p))
+    return out
+
+
+def s1_siblings(ctx):
+    repo = ctx.repo
+    fa, site_a, pa = _paths(ctx, "C05-S1", MA, "Attribute.__setitem__")
+    fd, site_d, pd = _paths(ctx, "C05-S1", MA, "ArrayAttribute.__setitem__")
+    if pa is None or pd is None:
+        return
+    if len(au.params(fa, skip_self=True)) < 2 or len(au.params(fd, skip_self=True)) < 2:
+        ctx.undecided("C05-S1", site_d, "__setitem__ without (key, value) parameters")
+        return
+    sa, sd = _setter_summary(fa, pa), _setter_summary(fd, pd)
+    atoms = [t for conds, _, _ in sa + sd for t, _ in conds]
+    try:
+        tab = hd_tt.Table(atoms, env_ok=lambda env: env.get("self.elemsize", 1) >= 1 and env.get("self.elemsize", 1) == int(env.get("self.elemsize", 1)))
+        diff = None
+        n = 0
+        for asg in tab.assignments():
+            n += 1
+            ra = [o for c, o, _ in sa if tab.consistent(c, asg)]
+            rd = [o for c, o, _ in sd if tab.consistent(c, asg)]
+            if len(ra) != 1 or len(rd) != 1:
+                raise hd_tt.TooBig(f"{len(ra)} sparse / {len(rd)} dense paths for one assignment")
+            if (ra[0][0] == "reject") != (rd[0][0] == "reject") or ra[0][0] == "nothing" or rd[0][0] == "nothing":
+                diff = ("accept", asg, ra[0], rd[0])
+                break
+            if ra[0][0] == "store" and ra[0] != rd[0] and diff is None:
+                diff = ("value", asg, ra[0], rd[0])
+    except (hd_tt.TooBig, order.Unsupported) as e:
+        ctx.undecided("C05-S1", site_d, "sparse and dense __setitem__: their decisions cannot be tabulated", str(e))
+        diff = "skip"
+    if diff is None:
+        ctx.ok("C05-S1", site_d, f"sparse and dense __setitem__ agree on {n} truth assignments of {len(tab.atoms)} conditions")
+    elif diff != "skip" and diff[0] == "accept" and _symbols([c for c, _, _ in sa]) != _symbols([c for c, _, _ in sd]):
+        ctx.undecided("C05-S1", site_d, "sparse and dense __setitem__ test different quantities: their decisions cannot be compared",
+                      f"only sparse: {sorted(_symbols([c for c, _, _ in sa]) - _symbols([c for c, _, _ in sd]))}; "
+                      f"only dense: {sorted(_symbols([c for c, _, _ in sd]) - _symbols([c for c, _, _ in sa]))}")
+    elif diff != "skip" and diff[0] == "accept":
+        _, asg, oa, od = diff
+
+        def show(o):
+            return f"rejects with {o[1]}" if o[0] == "reject" else ("stores the value" if o[0] == "store" else "does nothing")
+        ctx.fail("C05-S1", site_d, "sparse and dense __setitem__ do not accept and reject the same values",
+                 f"when {hd_tt.describe(asg)}: sparse {show(oa)}, dense {show(od)} - both storages must accept and reject "
+                 f"the same values (bool->int->float widening only, exact arity)")
+    elif diff != "skip":
+        _, asg, oa, od = diff
+        ctx.undecided("C05-S1", site_d, "sparse and dense __setitem__ store differently spelled values for the same input",
+                      f"sparse `{oa[2]}` / dense `{od[2]}`")
+    # absolute clauses on every accepting path of both setters
+    for fn, site, summ in ((fa, site_a, sa), (fd, site_d, sd)):
+        verdict = {}
+        for conds, outcome, p in summ:
+            if outcome[0] != "store":
+                continue
+            opaque = any(isinstance(n, ast.Call) and au.call_tail(n) not in ("_can_be_casted", "isinstance", "len", "list", "tuple", "type", "Type", "hasattr")
+                         for t, _ in conds for n in ast.walk(t))
+            vname = au.params(fn, skip_self=True)[1]
+            # a call inside the stored value that is not a plain conversion may validate (and raise): the path is not fully read
+            opaque = opaque or any(ev.kind == "store" and any(isinstance(n, ast.Call) and au.call_tail(n) not in ("Vec", "list", "tuple", "array", "asarray", "copy", "astype")
+                                                              and _has_name(n, vname) for n in ast.walk(ev.b)) for ev, _, _ in walk_events(p))
+            opaque = opaque or any(ev.kind in ("call", "assert", "other") and isinstance(ev.a, ast.AST) and _has_name(ev.a, vname) for ev, _, _ in walk_events(p)
+                                   if not (ev.kind == "call" and au.call_tail(ev.a) == "_check_out_of_bounds"))
+            # cast test: _can_be_casted(<type of the value>, self.type) holds
+            casts = [(t, pol) for t, pol in conds if isinstance(t, ast.Call) and au.call_tail(t) == "_can_be_casted"]
+            same_type = [(t, pol) for t, pol in conds if isinstance(t, ast.Compare) and len(t.ops) == 1 and isinstance(t.ops[0], (ast.Eq, ast.NotEq))
+                         and "self.type" in (src(t.left), src(t.comparators[0])) and _has_name(t, "VALUE")]
+            ok_cast = None
+            for t, pol in casts:
+                args = _cast_args(repo, t)
+                if args is None:
+                    continue
+                a, b = args
+                if au.is_self_attr(b, "type") and _has_name(a, "VALUE"):
+                    ok_cast = pol if ok_cast is None else ok_cast
+                    if pol:
+                        ok_cast = True
+                elif au.is_self_attr(a, "type") and _has_name(b, "VALUE"):
+                    verdict["swapped"] = ("fail", f"{fn.name}: the cast test is _can_be_casted(attribute type, value type)",
+                                          "widening is only allowed from the value's type to the attribute's type: the swapped test accepts float -> int narrowing")
+            if ok_cast is not True and not any(pol == isinstance(t.ops[0], ast.Eq) for t, pol in same_type):
+                if casts or same_type or opaque:
+                    verdict.setdefault("cast", ("und", f"{fn.name}: a value is stored on a path where the cast test was not recognised", ""))
+                else:
+                    verdict["cast"] = ("fail", f"{fn.name}: a value is stored without any test of its type against the attribute's type",
+                                       "only bool->int->float widening is allowed")
+            # exact arity for vectors
+            vecp = _elemsize_ok(conds, lambda e: e > 1)
+            if vecp is None:
+                verdict.setdefault("arity", ("und", f"{fn.name}: a value is stored under a condition on the element size that is not understood", ""))
+            if vecp:
+                ar = []
+                for t, pol in conds:
+                    if isinstance(t, ast.Compare) and len(t.ops) == 1 and type(t.ops[0]) in order.CMP:
+                        sides = [t.left, t.comparators[0]]
+                        if any(au.is_self_attr(x, "elemsize") for x in sides) and any(_has_name(x, "VALUE") for x in sides):
+                            ar.append((t, pol))
+                if not ar:
+                    mixed = any(_has_name(t, "VALUE") and "elemsize" in src(t) and not (isinstance(t, ast.Call) and au.call_tail(t) == "_can_be_casted") for t, _ in conds)
+                    if opaque or mixed:
+                        verdict.setdefault("arity", ("und", f"{fn.name}: a vector is stored on a path where the arity test was not recognised", ""))
+                    else:
+                        verdict["arity"] = ("fail", f"{fn.name}: a vector is stored without comparing its number of components with elemsize",
+                                            "a vector attribute accepts exactly elemsize components")
+                else:
+                    def s(node):
+                        return "e" if au.is_self_attr(node, "elemsize") else ("L" if _has_name(node, "VALUE") else (_ for _ in ()).throw(order.Unsupported(src(node))))
+                    try:
+                        pred = order.Pred(s)
+                        for t, _ in ar:
+                            pred.collect(t)
+                        w = None
+                        for env in order.envs(pred.symbols, pred.consts):
+                            if all(bool(pred.eval(t, env)) == pol for t, pol in ar) and env["L"] != env["e"]:
+                                w = env
+                                break
+                        if w is not None:
+                            verdict["arity"] = ("fail", f"{fn.name}: a vector whose number of components differs from elemsize is accepted",
+                                                f"e.g. {w['L']} components for elemsize {w['e']}: the arity must be exact")
+                    except order.Unsupported as e:
+                        verdict.setdefault("arity", ("und", f"{fn.name}: arity test not understood", str(e)))
+        if not verdict:
+            ctx.ok("C05-S1", site, f"{fn.name}: every stored value passed the cast test (value type, attribute type) and the exact-arity test")
+        for kind, c, w in verdict.values():
+            (ctx.fail if kind == "fail" else ctx.undecided)("C05-S1", site, c, w)
+
+
+def _cast_args(repo, call):
+    """(from, to) arguments of a _can_be_casted call, keywords mapped through the definition"""
+    fn = repo.func(MA, "_BaseAttribute._can_be_casted")
+    ps = [p for p in au.params(fn) if p not in ("self", "cls")]
+    args = list(call.args)
+    m = dict(zip(ps, args))
+    for k in call.keywords:
+        if k.arg in ps:
+            m[k.arg] = k.value
+    if len(ps) < 2 or ps[0] not in m or ps[1] not in m:
+        return None
+    return m[ps[0]], m[ps[1]]
+
+
+# ---------------------------------------------------------------------------- T1 / D1: tabulation on the finite domain of types
+def _type_members(repo):
+    cls = repo.cls(MA, "_BaseAttribute.Type")
+    out = []
+    for st in cls.body:
+        if isinstance(st, ast.Assign) and len(st.targets) == 1 and isinstance(st.targets[0], ast.Name):
+            out.append(st.targets[0].id)
+    return out
+
+
+def _evaluator(repo, methods=None):
+    members = _type_members(repo)
+    enum = hd_eval.Enum("Type", members)
+    mod = repo.module(MA)
+    ev = hd_eval.Ev(None, methods=methods or {})
+
+    def class_ns(qual):
+        def lookup(nm):
+            raise KeyError(nm)
+        attrs = {"Type": enum}
+        for m, c in repo.mro(mod, mod.classes[qual]):
+            for st in c.body:
+                if isinstance(st, ast.Assign) and len(st.targets) == 1 and isinstance(st.targets[0], ast.Name) and st.targets[0].id not in attrs:
+                    try:
+                        attrs[st.targets[0].id] = ev.expr(st.value, {})
+                    except (hd_eval.Unknown, hd_eval.Raised):
+                        pass
+        return hd_eval.NS(qual, attrs)
+    cache = {}
+
+    def g(nm):
+        if nm in cache:
+            return cache[nm]
+        if nm in mod.classes and nm in ("Attribute", "_BaseAttribute", "ArrayAttribute"):
+            cache[nm] = hd_eval.NS(nm, {"Type": enum})       # placeholder while class constants are evaluated (they may refer to the class)
+            cache[nm] = class_ns(nm)
+            return cache[nm]
+        if nm == "Type":
+            return enum
+        if nm == "Vec":
+            return hd_eval.VecV
+        for st in mod.tree.body:
+            if isinstance(st, ast.Assign) and len(st.targets) == 1 and isinstance(st.targets[0], ast.Name) and st.targets[0].id == nm:
+                cache[nm] = ev.expr(st.value, {})
+                return cache[nm]
+            if isinstance(st, ast.AnnAssign) and isinstance(st.target, ast.Name) and st.target.id == nm and st.value is not None:
+                cache[nm] = ev.expr(st.value, {})
+                return cache[nm]
+            if isinstance(st, ast.FunctionDef) and st.name == nm:
+                return hd_eval.Func(st)
+        if nm == "itertools":
+            import itertools
+            return hd_eval.NS("itertools", {k: getattr(itertools, k) for k in ("combinations", "permutations", "product", "chain", "accumulate", "pairwise", "islice")})
+        raise KeyError(nm)
+    ev.g = g
+    return ev, enum, members
+
+
+def t1_cast_table(ctx):
+    repo = ctx.repo
+    fn = repo.func(MA, "_BaseAttribute._can_be_casted")
+    site = ctx.site(MA, fn)
+    ps = [p for p in au.params(fn) if p not in ("self", "cls")]
+    if len(ps) < 2:
+        ctx.undecided("C05-T1", site, "_can_be_casted does not take (from, to) types")
+        return
+    ev, enum, members = _evaluator(repo)
+    want = {("Bool", "Int"), ("Bool", "Float"), ("Int", "Float")}
+    need = {"Bool", "Int", "Float", "Complex", "String"}
+    if set(members) != need:
+        ctx.undecided("C05-T1", site, f"the attribute types are {sorted(members)}; the specification of the cast table knows {sorted(need)}")
+        return
+    wrong = []
+    try:
+        for a in members:
+            for b in members:
+                ev.steps = 20000
+                try:
+                    r = ev.call(fn, {ps[0]: hd_eval.Member("Type", a), ps[1]: hd_eval.Member("Type", b)})
+                except hd_eval.Raised as e:
+                    raise hd_eval.Unknown(f"raises {e.exc} for ({a}, {b})")
+                if not isinstance(r, bool):
+                    raise hd_eval.Unknown(f"returns a non-boolean for ({a}, {b})")
+                if r != (a == b or (a, b) in want):
+                    wrong.append((a, b, r))
+    except (hd_eval.Unknown, RecursionError) as e:
+        ctx.undecided("C05-T1", site, "_can_be_casted cannot be tabulated over the pairs of attribute types", str(e))
+        return
+    if not wrong:
+        ctx.ok("C05-T1", site, "cast table tabulated over 25 type pairs: reflexive + bool->int->float widening")
+        return
+    allowed = sorted((a, b) for a, b, r in wrong if r)
+    refused = sorted((a, b) for a, b, r in wrong if not r)
+    if allowed:
+        ctx.fail("C05-T1", site, f"cast table allows {allowed}", "only bool->int->float widening is allowed (float -> int narrowing, casts from/to complex or string are not)")
+    if refused:
+        ctx.fail("C05-T1", site, f"cast table refuses {refused}", "identical types and bool->int->float widening must be accepted")
+
+
 def d1_defaults(ctx):
     repo = ctx.repo
     fn = repo.func(MA, "_BaseAttribute.Type.default_value")
     site = ctx.site(MA, fn)
-    n = au.params(fn, skip_self=True)[0]
+    ps = au.params(fn)
     want = {"Bool": False, "Int": 0, "Float": 0.0, "Complex": 0j, "String": ""}
-    got = {}
-    scalar_branch = None
-    for st in fn.body:
-        if isinstance(st, ast.If) and isinstance(st.test, ast.Compare) and au.src(st.test.left) == n and au.const(st.test.comparators[0]) == 1 \
-                and isinstance(st.test.ops[0], ast.Eq):
-            scalar_branch = st
-    if scalar_branch is None:
-        ctx.fail("C05-D1", site, "default_value no longer separates the scalar case n == 1", "")
+    ev, enum, members = _evaluator(repo, methods={"default_value": fn})
+    if len(ps) < 2 or set(members) != set(want):
+        ctx.undecided("C05-D1", site, "Type.default_value(self, n) / the list of attribute types has changed")
+    else:
+        got, vec_bad, unknown = {}, [], None
+        try:
+            for m in members:
+                ev.steps = 20000
+                try:
+                    got[m] = ev.call(fn, {ps[0]: hd_eval.Member("Type", m), ps[1]: 1})
+                except hd_eval.Raised as e:
+                    got[m] = f"<raises {e.exc}>"
+                for k in (2, 3):
+                    try:
+                        v = ev.call(fn, {ps[0]: hd_eval.Member("Type", m), ps[1]: k})
+                    except hd_eval.Raised as e:
+                        v = f"<raises {e.exc}>"
+                    if not (isinstance(v, hd_eval.VecV) and v == hd_eval.VecV([want[m]] * k)):
+                        vec_bad.append((m, k, v))
+            # default of the parameter n
+            ev.steps = 20000
+            d0 = ev.call(fn, {ps[0]: hd_eval.Member("Type", "Int")})
+        except (hd_eval.Unknown, RecursionError) as e:
+            unknown = str(e)
+        if unknown:
+            ctx.undecided("C05-D1", site, "Type.default_value cannot be tabulated over the attribute types", unknown)
+        else:
+            ok = all(type(got[k]) is type(want[k]) and got[k] == want[k] for k in want)
+            ctx.check(ok, "C05-D1", site, f"scalar defaults per type are {got}", f"expected the zero / empty value of each type: {want}", note="5 type defaults")
+            scalar_bad = {m for m in want if not (type(got[m]) is type(want[m]) and got[m] == want[m])}
+            vec_bad = [x for x in vec_bad if x[0] not in scalar_bad]
+            ctx.check(not vec_bad, "C05-D1", site,
+                      "vector default is not the scalar default repeated n times" + (f": default_value({vec_bad[0][1]}) of {vec_bad[0][0]} is {vec_bad[0][2]}" if vec_bad else ""),
+                      "a vector attribute defaults to elemsize copies of the scalar default", note="vector default = n copies")
+    # the property: the given default, else type.default_value(elemsize)
+    fn, site, paths = _paths(ctx, "C05-D1", MA, "_BaseAttribute.default_value")
+    if paths is None:
         return
-    for st in scalar_branch.body:
-        if isinstance(st, ast.If) and isinstance(st.test, ast.Compare) and isinstance(st.test.ops[0], ast.Eq) and len(st.body) == 1 \
-                and isinstance(st.body[0], ast.Return):
-            tname = au.src(st.test.comparators[0]).split(".")[-1]
-            v = st.body[0].value
-            val = None
-            if isinstance(v, ast.Constant):
-                val = v.value
-            elif isinstance(v, ast.Call) and isinstance(v.func, ast.Name) and v.func.id in ("int", "float", "complex", "bool", "str"):
-                args = [au.const(a) for a in v.args]
-                if None not in args:
-                    val = {"int": int, "float": float, "complex": complex, "bool": bool, "str": str}[v.func.id](*args)
-            got[tname] = val
-    ok = set(got) == set(want) and all(type(got[k]) is type(want[k]) and got[k] == want[k] for k in want)
-    ctx.check(ok, "C05-D1", site, f"scalar defaults per type are {got}", f"expected the zero / empty value of each type: {want}", note="5 type defaults")
-    rets = [st for st in fn.body if isinstance(st, ast.Return)]
-    okv = bool(rets) and isinstance(rets[-1].value, ast.Call) and au.call_tail(rets[-1].value) == "Vec" and rets[-1].value.args \
-        and au.src(rets[-1].value.args[0]).replace(" ", "") == f"[self.default_value(1)]*{n}"
-    ctx.check(okv, "C05-D1", site, "vector default is not the scalar default repeated n times", "", note="vector default = n copies")
-    fn = repo.func(MA, "_BaseAttribute.default_value")
-    ok = False
-    for st in fn.body:
-        if isinstance(st, ast.If) and au.src(st.test) == "self._default_value is None":
-            ok = any(isinstance(s_, ast.Assign) and au.is_self_attr(s_.targets[0], "_default_value")
-                     and au.src(s_.value) == "self.type.default_value(self.elemsize)" for s_ in st.body)
-    r = [st for st in fn.body if isinstance(st, ast.Return)]
-    ok = ok and bool(r) and au.src(r[-1].value) == "self._default_value"
-    ctx.check(ok, "C05-D1", ctx.site(MA, fn), "default_value property is not `the given default, else type.default_value(elemsize)`", "",
-              note="default from (type, elemsize)")
+
+    def is_none_test(t):
+        return isinstance(t, ast.Compare) and len(t.ops) == 1 and isinstance(t.ops[0], (ast.Is, ast.IsNot, ast.Eq, ast.NotEq)) \
+            and au.is_self_attr(t.left, "_default_value") and isinstance(t.comparators[0], ast.Constant) and t.comparators[0].value is None
+    und, bad, n = [], [], 0
+    for p in paths:
+        if p.end != "return" or p.ret is None:
+            if p.end != "raise":
+                bad.append("a path returns nothing")
+            continue
+        none = None
+        for t, pol in p.conds:
+            if is_none_test(t):
+                none = pol if isinstance(t.ops[0], (ast.Is, ast.Eq)) else not pol
+        v = p.ret
+        if none is True:
+            n += 1
+            if isinstance(v, ast.Call) and src(v.func) == "self.type.default_value" and len(v.args) + len(v.keywords) == 1 \
+                    and au.is_self_attr((v.args + [k.value for k in v.keywords])[0], "elemsize"):
+                pass
+            elif isinstance(v, ast.Call) and src(v.func) == "self.type.default_value":
+                bad.append(f"without a given default the property answers `{src(v)}`")
+            else:
+                und.append(f"without a given default the property answers `{src(v)}`")
+        elif none is False:
+            n += 1
+            if not au.is_self_attr(v, "_default_value"):
+                und.append(f"with a given default the property answers `{src(v)}`")
+        else:
+            und.append(f"answers `{src(v)}` without testing whether a default was given")
+    if bad:
+        ctx.fail("C05-D1", site, "default_value property is not `the given default, else type.default_value(elemsize)`", "; ".join(bad))
+    elif und or n < 2:
+        ctx.undecided("C05-D1", site, "default_value property: not recognised as `the given default, else type.default_value(elemsize)`", "; ".join(und))
+    else:
+        ctx.ok("C05-D1", site, "default from (type, elemsize) when none was given")
 
 
 # ---------------------------------------------------------------------------- R1
 def r1_dense_read(ctx):
+    fn, site, ps = _paths(ctx, "C05-R1", MA, "ArrayAttribute.__getitem__")
+    if ps is not None:
+        params = au.params(fn, skip_self=True)
+        key = params[0] if params else None
+        bad, und, n = [], [], 0
+        for p in ps:
+            if p.end != "return" or p.ret is None:
+                if p.end == "fall":
+                    und.append("a path returns nothing")
+                continue
+            v = p.ret
+            form = None
+            if isinstance(v, ast.Subscript) and au.is_self_attr(v.value, "_data"):
+                sl = v.slice
+                if isinstance(sl, ast.Tuple) and len(sl.elts) == 2 and src(sl.elts[0]) == key:
+                    second = sl.elts[1]
+                    if au.const(second) == 0:
+                        form = "scalar"
+                    elif isinstance(second, ast.Slice) and second.lower is None and second.upper is None and second.step is None \
+                            or isinstance(second, ast.Constant) and second.value is Ellipsis or src(second) in ("slice(None)", "slice(None, None)", "slice(None, None, None)"):
+                        form = "row"
+                elif src(sl) == key:
+                    form = "row"
+            elif isinstance(v, ast.Subscript) and isinstance(v.value, ast.Subscript) and au.is_self_attr(v.value.value, "_data") \
+                    and src(v.value.slice) == key and au.const(v.slice) == 0:
+                form = "scalar"
+            if form is None:
+                und.append(f"returns `{src(v)}`")
+                continue
+            n += 1
+            can1, canv = _elemsize_ok(p.conds, lambda e: e == 1), _elemsize_ok(p.conds, lambda e: e > 1)
+            other = [au.canon_test(t, pol) for t, pol in p.conds if "elemsize" not in src(t) and "self._data.shape[1]" not in src(t) and not _has_name(t, key)]
+            if can1 is None or canv is None:
+                und.append(f"`{src(v)}` is returned under a condition on the element size that is not understood")
+                continue
+            if can1 and canv and other:
+                und.append(f"`{src(v)}` is returned when {' and '.join(other)}")
+                continue
+            if form == "scalar" and canv:
+                bad.append("the first component only is returned for a vector attribute (elemsize > 1)")
+            if form == "row" and can1:
+                bad.append("a whole row (array of one element) is returned for a scalar attribute (elemsize == 1)")
+        if bad:
+            ctx.fail("C05-R1", site, "dense __getitem__ is not `_data[key, 0] if elemsize == 1 else _data[key, :]`",
+                     "; ".join(sorted(set(bad))) + " - a scalar attribute must read back the scalar that was written, a vector attribute the whole vector, like the sparse storage")
+        elif und or n == 0:
+            ctx.undecided("C05-R1", site, "dense __getitem__: the returned value is not a recognised read of self._data at the key", "; ".join(sorted(set(und))))
+        else:
+            ctx.ok("C05-R1", site, "scalar iff elemsize == 1")
+    for qual, okset, what in (("ArrayAttribute.__len__", ("self.n_elem", "len(self._data)", "self._data.shape[0]"), "n_elem"),
+                              ("Attribute.__len__", ("len(self._data)", "len(self._data.keys())"), "the number of stored keys")):
+        fn, site, ps = _paths(ctx, "C05-R1", MA, qual)
+        if ps is None:
+            continue
+        rets = [src(p.ret) for p in ps if p.end == "return"]
+        if rets and all(r in okset for r in rets):
+            ctx.ok("C05-R1", site, f"len is {what}")
+        elif rets and all(isinstance(p.ret, ast.Constant) for p in ps if p.end == "return"):
+            ctx.fail("C05-R1", site, f"{qual} returns a constant", f"the length of the attribute is {what}")
+        else:
+            ctx.undecided("C05-R1", site, f"{qual} is not recognised as {what}", "; ".join(rets))
+
+
+# ---------------------------------------------------------------------------- C1
+def _is_property(repo, clsname, member):
+    mod = repo.module(MA)
+    for m, f, c in repo.methods(mod, mod.classes[clsname]).values():
+        if f.name == member and any(src(d) in ("property", "cached_property", "functools.cached_property") for d in f.decorator_list):
+            return True
+    return False
+
+
+def _np_call(e, tails):
+    return isinstance(e, ast.Call) and au.call_tail(e) in tails
+
+
+def _rows(e, want_atom, names):
+    """is the row count `e` the wanted quantity?  True / (False, text) when it is recognisably another count / None when unknown.
+    names: source texts that denote the wanted quantity"""
+    while isinstance(e, ast.Call) and isinstance(e.func, ast.Name) and e.func.id == "int" and len(e.args) == 1:
+        e = e.args[0]
+    pl = sym.to_poly(e, atom_of=lambda x: want_atom if src(x) in names else None)
+    if pl == P.atom(want_atom):
+        return True
+    if pl.atoms() <= {want_atom}:
+        return False, f"`{src(e)}` rows"
+    return None
+
+
+def _fills_of(p):
+    """block expression (as built) -> value the whole block is filled with afterwards on the path: np.copyto(b, v), b.fill(v), b[:] = v, b[...] = v"""
+    out = {}
+    for ev, _, loops in walk_events(p):
+        if loops:
+            continue
+        if ev.kind == "call" and au.call_tail(ev.a) == "copyto" and len(ev.a.args) >= 2:
+            out[src(hd_sx.unwrap_after(ev.a.args[0]))] = ev.a.args[1]
+        elif ev.kind == "call" and isinstance(ev.a.func, ast.Attribute) and ev.a.func.attr == "fill" and len(ev.a.args) == 1:
+            out[src(hd_sx.unwrap_after(ev.a.func.value))] = ev.a.args[0]
+        elif ev.kind == "store" and isinstance(ev.a, ast.Subscript) and (
+                isinstance(ev.a.slice, ast.Slice) and ev.a.slice.lower is None and ev.a.slice.upper is None and ev.a.slice.step is None
+                or isinstance(ev.a.slice, ast.Constant) and ev.a.slice.value is Ellipsis):
+            out[src(hd_sx.unwrap_after(ev.a.value))] = ev.b
+    return out
+
+
+def _default_block(e, rows_ok, fills=None):
+    """e is np.full((rows, self.elemsize), self.default_value, ...) - or np.empty / np.zeros of that shape filled afterwards (fills) -:
+    True / (False, why) when it is recognisably another block / None when it is not such a call or one of its arguments is not understood"""
+    e = hd_sx.unwrap_after(e)
+    if not _np_call(e, ("full", "empty", "zeros", "ones")):
+        return None
+    args = list(e.args)
+    kw = {k.arg: k.value for k in e.keywords}
+    shape = args[0] if args else kw.get("shape")
+    if au.call_tail(e) == "full":
+        fill = args[1] if len(args) > 1 else kw.get("fill_value")
+    else:
+        fill = (fills or {}).get(src(e))
+        if fill is None:
+            if au.call_tail(e) == "empty":
+                return None
+            fill = ast.Constant(value=0 if au.call_tail(e) == "zeros" else 1)
+    if not isinstance(shape, (ast.Tuple, ast.List)) or len(shape.elts) != 2 or fill is None:
+        return None
+    if not is_default(fill):
+        if any(is_default(x) for x in ast.walk(fill)):
+            return None
+        if isinstance(fill, ast.Constant) or (isinstance(fill, ast.Call) and "default_value" in src(fill.func)):
+            return False, f"filled with `{src(fill)}` instead of the attribute's default"
+        return None
+    if not (au.is_self_attr(shape.elts[1], "elemsize") or src(shape.elts[1]) == "self._data.shape[1]"):
+        if isinstance(shape.elts[1], ast.Constant):
+            return False, f"rows of {src(shape.elts[1])} components instead of elemsize"
+        return None
+    r = rows_ok(shape.elts[0])
+    if r is True or r is None:
+        return r
+    return False, r[1]
+
+
+def _nothing_to_add(conds, n):
+    """the path is taken only when the number of new elements is zero (or negative)"""
+    def s(node):
+        if isinstance(node, ast.Name) and node.id == n:
+            return "n"
+        raise order.Unsupported(src(node))
+    for t, pol in conds:
+        if not _has_name(t, n):
+            continue
+        if isinstance(t, ast.Name) and not pol:
+            return True
+        try:
+            pred = order.Pred(s).collect(t)
+            if not any(bool(pred.eval(t, env)) == pol for env in order.envs(pred.symbols | {"n"}, pred.consts | {0}) if env["n"] >= 1 and env["n"] == int(env["n"])):
+                return True
+        except order.Unsupported:
+            pass
+    return False
+
+
+def _preallocated(p, d, n):
+    """`grown = np.zeros/empty/full((n_elem + n, elemsize)); grown[:n_elem] = self._data; grown[n_elem:] = default; self._data = grown`
+    True when the path is that, (construct, what) when a recognised part of it is wrong, None when the shape is another one"""
+    blk = hd_sx.unwrap_after(d)
+    if not _np_call(blk, ("zeros", "empty", "full")) or not blk.args or not isinstance(blk.args[0], (ast.Tuple, ast.List)) or len(blk.args[0].elts) != 2:
+        return None
+    at = lambda e: "N" if src(e) in ("self.n_elem", "len(self._data)", "self._data.shape[0]") else None
+    rows = sym.to_poly(blk.args[0].elts[0], atom_of=at)
+    if rows != P.atom("N") + P.atom(n):
+        return None if not rows.atoms() <= {"N", n} else (f"_expand allocates `{rows}` rows instead of n_elem + {n}", "one row per element of the container")
+    filled = au.call_tail(blk) == "full" and len(blk.args) > 1 and is_default(blk.args[1])
+    key = src(blk)
+    head = tail = None
+    for ev, _, loops in walk_events(p):
+        if ev.kind != "store" or not isinstance(ev.a, ast.Subscript) or src(hd_sx.unwrap_after(ev.a.value)) != key or loops:
+            continue
+        sl = ev.a.slice.elts[0] if isinstance(ev.a.slice, ast.Tuple) and ev.a.slice.elts else ev.a.slice
+        if not isinstance(sl, ast.Slice) or sl.step is not None:
+            return None
+        lo = sym.to_poly(sl.lower, atom_of=at) if sl.lower is not None else P.const(0)
+        hi = sym.to_poly(sl.upper, atom_of=at) if sl.upper is not None else P.atom("N") + P.atom(n)
+        if not (lo.atoms() | hi.atoms()) <= {"N", n}:
+            return None
+        if au.is_self_attr(hd_sx.unwrap_after(ev.b), "_data") or (isinstance(ev.b, ast.Subscript) and au.is_self_attr(ev.b.value, "_data")):
+            head = (lo, hi)
+        elif is_default(ev.b):
+            tail = (lo, hi)
+        else:
+            return None
+    if head is None:
+        return None
+    if head != (P.const(0), P.atom("N")):
+        return (f"_expand copies the existing rows to [{head[0]}:{head[1]}] of the new storage", "existing values must be kept in place")
+    if tail is None:
+        if filled:
+            return True
+        return ("_expand leaves the new rows as allocated (zeros / uninitialised) instead of filling them with the attribute's default",
+                "new elements must read the default value (a custom default is not zero)")
+    if tail != (P.atom("N"), P.atom("N") + P.atom(n)):
+        return (f"_expand fills rows [{tail[0]}:{tail[1]}] with the default instead of the n new rows [n_elem : n_elem + {n}]",
+                "new elements must read the default value: the slice is taken after n_elem was advanced, it is empty")
+    return True
+
+
+def c1_expand_clear(ctx):
     repo = ctx.repo
-    fn = repo.func(MA, "ArrayAttribute.__getitem__")
-    site = ctx.site(MA, fn)
-    key = au.params(fn, skip_self=True)[0]
-    rets = [st for st in fn.body if isinstance(st, ast.Return)]
-    ok = False
-    if len(rets) == 1:
-        v = rets[0].value
-        cases = None
-        if isinstance(v, ast.IfExp):
-            cases = (v.test, v.body, v.orelse)
-        if cases:
-            t, a, b = cases
-            try:
-                pred = order.Pred(lambda node: "e" if au.is_self_attr(node, "elemsize") else (_ for _ in ()).throw(order.Unsupported("x")))
-                truth = [bool(pred.eval(t, {"e": e})) for e in (1, 2, 3, 4)]   # elemsize is a positive count
-            except order.Unsupported:
-                truth = None
-            w_eq = True
-            if truth == [True, False, False, False]:
-                w_eq = None
-            elif truth == [False, True, True, True]:
-                a, b = b, a
-                w_eq = None
-            scalar = au.src(a).replace(" ", "") == f"self._data[{key},0]"
-            row = au.src(b).replace(" ", "") in (f"self._data[{key},:]", f"self._data[{key}]")
-            ok = w_eq is None and scalar and row
-    ctx.check(ok, "C05-R1", site, "dense __getitem__ is not `_data[key, 0] if elemsize == 1 else _data[key, :]`",
-              "a scalar attribute must read back the scalar that was written, a vector attribute the whole vector - like the sparse storage",
-              note="scalar iff elemsize == 1")
-    fn = repo.func(MA, "ArrayAttribute.__len__")
-    r = [st for st in fn.body if isinstance(st, ast.Return)]
-    ctx.check(bool(r) and au.src(r[0].value) == "self.n_elem", "C05-R1", ctx.site(MA, fn), "len(dense attribute) is not n_elem", "")
+    # ---- dense _expand
+    fn, site, ps = _paths(ctx, "C05-C1", MA, "ArrayAttribute._expand")
+    rebuilt_from = set()
+    if ps is not None:
+        params = au.params(fn, skip_self=True)
+        n = params[0] if params else None
+        bad, und = [], []
+        for p in ps:
+            if p.end == "raise" or _nothing_to_add(p.conds, n):
+                continue
+            fin_n = p.heap.get("self.n_elem")
+            if fin_n is None and _is_property(repo, "ArrayAttribute", "n_elem"):
+                pass                                    # the size is derived from the storage
+            elif fin_n is None:
+                bad.append(("_expand does not add n to self.n_elem", "the bounds check would reject the new elements"))
+            else:
+                pn = sym.to_poly(fin_n, atom_of=lambda e: "N" if au.is_self_attr(e, "n_elem") else None)
+                new_len = isinstance(fin_n, ast.Call) and au.call_tail(fin_n) == "len" and fin_n.args and p.heap.get("self._data") is not None \
+                    and src(fin_n.args[0]) == src(p.heap["self._data"])
+                new_len = new_len or (p.heap.get("self._data") is not None and src(fin_n) == src(p.heap["self._data"]) + ".shape[0]")
+                if pn == P.atom("N") + P.atom(n) or new_len:
+                    pass
+                elif pn.atoms() <= {"N", n}:
+                    bad.append((f"_expand sets self.n_elem to `{src(fin_n)}` instead of n_elem + {n}", "the bounds check would reject the new elements (or accept too many)"))
+                else:
+                    und.append(f"self.n_elem becomes `{src(fin_n)}`")
+            d = p.heap.get("self._data")
+            if d is None:
+                muts = [ev for ev, _, _ in walk_events(p) if ev.kind in ("call", "aug", "store", "loop", "other") and any(
+                    au.is_self_attr(x) and x.attr not in ("n_elem",) for e in hd_sx.exprs_of(ev) for x in ast.walk(e))]
+                if muts or _is_property(repo, "ArrayAttribute", "_data"):
+                    und.append("the storage is not rebound to `old rows + new rows` (updated in place / kept in another field)")
+                else:
+                    bad.append(("_expand does not add rows to self._data", "new elements must read the default value"))
+                continue
+            parts = None
+            if _np_call(d, ("concatenate", "vstack")) and d.args and isinstance(d.args[0], (ast.Tuple, ast.List)) and len(d.args[0].elts) == 2:
+                parts = d.args[0].elts
+            elif _np_call(d, ("append",)) and len(d.args) >= 2 and src(d.func).split(".")[0] in ("np", "numpy"):
+                parts = d.args[:2]
+            elif isinstance(d, ast.Subscript) and src(d.value) in ("np.r_", "numpy.r_") and isinstance(d.slice, ast.Tuple) and len(d.slice.elts) == 2:
+                parts = d.slice.elts
+            if parts is None:
+                pre = _preallocated(p, d, n)
+                if pre is not None:
+                    if pre is not True:
+                        bad.append(pre)
+                    continue
+                written_here = {ev.a.attr for q_ in ps for ev, _, _ in walk_events(q_) if ev.kind in ("store", "aug") and au.is_self_attr(ev.a)}
+                fields = {f for f in _self_fields(d) if f not in BASIC_FIELDS and f in written_here}
+                if fields:
+                    rebuilt_from |= fields
+                else:
+                    und.append(f"self._data becomes `{src(d)}`")
+                continue
+            old, blk = parts
+            r = _default_block(blk, lambda e: _rows(e, "n", (n,)), _fills_of(p))
+            if au.is_self_attr(blk, "_data") and _default_block(old, lambda e: True, _fills_of(p)) is not None:
+                bad.append(("_expand puts the new rows before the existing ones", "existing values must be kept in place"))
+            elif not au.is_self_attr(old, "_data"):
+                und.append(f"rows are appended after `{src(old)}`")
+            elif r is None:
+                und.append(f"the appended block is `{src(blk)}`")
+            elif r is not True:
+                bad.append((f"_expand adds a block with {r[1]}", "new elements must read the default value, one row per new element"))
+        bad = [b if isinstance(b, tuple) else (b, "") for b in bad]
+        for c, w in dict(bad).items():
+            ctx.fail("C05-C1", site, c, w)
+        if not bad and und:
+            ctx.undecided("C05-C1", site, "ArrayAttribute._expand: not recognised as `append n default rows, n_elem += n`", "; ".join(sorted(set(map(str, und)))))
+        elif not bad and not rebuilt_from:
+            ctx.ok("C05-C1", site, "_expand appends n default rows and adds n to n_elem")
+    # ---- dense clear
+    fn, site, ps = _paths(ctx, "C05-C1", MA, "ArrayAttribute.clear")
+    if ps is not None:
+        bad, und = [], []
+        written = set()
+        for p in ps:
+            if p.end == "raise":
+                continue
+            for ev, _, _ in walk_events(p):
+                if ev.kind in ("store", "aug") and au.is_self_attr(ev.a):
+                    written.add(ev.a.attr)
+                if ev.kind in ("store", "aug") and isinstance(ev.a, ast.Subscript) and au.is_self_attr(ev.a.value):
+                    written.add(ev.a.value.attr)
+                if ev.kind == "call" and isinstance(ev.a.func, ast.Attribute) and au.is_self_attr(ev.a.func.value):
+                    written.add(ev.a.func.value.attr)
+            if "self.n_elem" in p.heap:
+                rn = _rows(p.heap["self.n_elem"], "N", ("self.n_elem", "len(self)", "len(self._data)", "self._data.shape[0]"))
+                if rn is None:
+                    und.append(f"n_elem becomes `{src(p.heap['self.n_elem'])}`")
+                elif rn is not True:
+                    bad.append((f"ArrayAttribute.clear changes n_elem to `{src(p.heap['self.n_elem'])}`", "after clear every index of the container must still read the default"))
+            d = p.heap.get("self._data")
+            fills = []
+            for ev, _, _ in walk_events(p):
+                if ev.kind == "call" and isinstance(ev.a.func, ast.Attribute) and ev.a.func.attr == "fill" and au.is_self_attr(ev.a.func.value, "_data") and len(ev.a.args) == 1:
+                    fills.append(ev.a.args[0])
+                if ev.kind == "store" and isinstance(ev.a, ast.Subscript) and au.is_self_attr(ev.a.value, "_data") \
+                        and (isinstance(ev.a.slice, ast.Slice) and ev.a.slice.lower is None and ev.a.slice.upper is None
+                             or isinstance(ev.a.slice, ast.Constant) and ev.a.slice.value is Ellipsis):
+                    fills.append(ev.b)
+            rebound = any(ev.kind == "store" and au.is_self_attr(ev.a, "_data") for ev, _, _ in walk_events(p))
+            if rebound and d is not None:
+                r = _default_block(d, lambda e: _rows(e, "N", ("self.n_elem", "len(self)", "len(self._data)", "self._data.shape[0]")), _fills_of(p))
+                if r is None and isinstance(d, ast.Call) and au.call_tail(d) == "full_like" and len(d.args) >= 2 and au.is_self_attr(d.args[0], "_data"):
+                    r = True if is_default(d.args[1]) else (False, f"filled with `{src(d.args[1])}` instead of the attribute's default")
+                if r is None:
+                    und.append(f"self._data becomes `{src(d)}`")
+                elif r is not True:
+                    bad.append((f"ArrayAttribute.clear rebuilds the storage with {r[1]}", "after clear every index of the container must read the default"))
+            elif fills:
+                for f in fills:
+                    if is_default(f):
+                        continue
+                    if isinstance(f, ast.Constant) or (isinstance(f, ast.Call) and "default_value" in src(f.func)) or _self_fields(f) - {"default_value", "_default_value"}:
+                        bad.append((f"ArrayAttribute.clear fills the storage with `{src(f)}` instead of the attribute's default",
+                                    "an attribute created with a custom default must read that default at every index after clear, like the sparse storage"))
+                    else:
+                        und.append(f"the storage is filled with `{src(f)}`")
+            else:
+                und.append("no reset of self._data recognised")
+        missing = sorted(rebuilt_from - written)
+        if missing:
+            ctx.fail("C05-C1", site, f"_expand rebuilds the storage from self.{missing[0]}, which clear() leaves untouched",
+                     "values written before clear() come back when the container grows afterwards: after clear every index must read the default")
+        for c, w in dict(bad).items():
+            ctx.fail("C05-C1", site, c, w)
+        if not bad and not missing and und:
+            ctx.undecided("C05-C1", site, "ArrayAttribute.clear: not recognised as `storage = (n_elem, elemsize) rows of the default`", "; ".join(sorted(set(und))))
+        elif not bad and not missing:
+            ctx.ok("C05-C1", site, "clear restores (n_elem, elemsize) defaults")
+    # ---- sparse clear
+    fn, site, ps = _paths(ctx, "C05-C1", MA, "Attribute.clear")
+    if ps is not None:
+        ok = und = False
+        for p in ps:
+            if p.end == "raise":
+                continue
+            d = p.heap.get("self._data")
+            cleared = any(ev.kind == "call" and isinstance(ev.a.func, ast.Attribute) and ev.a.func.attr == "clear" and au.is_self_attr(ev.a.func.value, "_data")
+                          for ev, _, _ in walk_events(p))
+            if cleared or isinstance(d, ast.Dict) and not d.keys or isinstance(d, ast.Call) and src(d.func) in ("dict", "OrderedDict", "collections.OrderedDict") and not d.args and not d.keywords:
+                ok = True
+            else:
+                und = True
+        if ok and not und:
+            ctx.ok("C05-C1", site, "sparse clear empties the dictionary")
+        else:
+            ctx.undecided("C05-C1", site, "Attribute.clear: not recognised as emptying the dictionary")
+
+
+def c1_init(ctx):
+    """a new dense attribute reads its default everywhere: storage = n_elem rows of elemsize defaults, n_elem = the given size"""
+    fn, site, ps = _paths(ctx, "C05-C1", MA, "ArrayAttribute.__init__")
+    if ps is None:
+        return
+    params = au.params(fn, skip_self=True)
+    if len(params) < 2:
+        ctx.undecided("C05-C1", site, "ArrayAttribute.__init__ without (type, n_elem) parameters")
+        return
+    size = params[1]
+    bad, und, n_ok = [], [], 0
+    for p in ps:
+        if p.end == "raise":
+            continue
+        d, ne, es = p.heap.get("self._data"), p.heap.get("self.n_elem"), p.heap.get("self.elemsize")
+        if ne is not None and src(ne) != size and not (isinstance(ne, ast.Call) and au.call_tail(ne) == "int" and len(ne.args) == 1 and src(ne.args[0]) == size):
+            (bad if isinstance(ne, ast.Constant) else und).append((f"a new dense attribute has n_elem `{src(ne)}` instead of the size it was given", "the bounds check must accept exactly the indices of the container"))
+        if d is None:
+            und.append(("self._data is not set", ""))
+            continue
+        blk = d
+        # the block is spelled with the parameters or with the fields they were stored in
+        names_rows = (size, "self.n_elem") + ((src(ne),) if ne is not None else ())
+        r = None
+        blk = hd_sx.unwrap_after(blk)
+        if _np_call(blk, ("full", "empty", "zeros", "ones")):
+            blk2 = hd_sx.clone(blk)
+            shape = blk2.args[0] if blk2.args else None
+            if isinstance(shape, (ast.Tuple, ast.List)) and len(shape.elts) == 2 and es is not None and src(shape.elts[1]) == src(es):
+                shape.elts[1] = ast.parse("self.elemsize", mode="eval").body
+            r = _default_block(blk2, lambda e: _rows(e, "S", names_rows), {src(blk2): v_ for k_, v_ in _fills_of(p).items() if k_ == src(blk)})
+        if r is True:
+            n_ok += 1
+        elif r is None:
+            und.append((f"the storage of a new dense attribute is `{src(d)[:80]}`", ""))
+        else:
+            bad.append((f"a new dense attribute is built as a block with {r[1]}", "every index of the container must read the default until it is written"))
+    for c, w in dict(x for x in bad if isinstance(x, tuple)).items():
+        ctx.fail("C05-C1", site, c, w)
+    if not bad and (und or n_ok == 0):
+        ctx.undecided("C05-C1", site, "ArrayAttribute.__init__: not recognised as `storage = (n_elem, elemsize) rows of the default`", "; ".join(sorted({c for c, _ in und})))
+    elif not bad:
+        ctx.ok("C05-C1", site, "a new dense attribute is (n_elem, elemsize) rows of the default")
+
+
+def c1_creation(ctx):
+    """dense attributes are created with the container's current size"""
+    repo = ctx.repo
+    fn, site, ps = _paths(ctx, "C05-C1", DC, "_BaseDataContainer.create_attribute", cls="_BaseDataContainer")
+    if ps is None:
+        return
+    init = repo.func(MA, "ArrayAttribute.__init__")
+    ips = au.params(init, skip_self=True)
+    size_params = [p for p in au.params(fn, skip_self=True)]
+    bad, und, n = [], [], 0
+    for p in ps:
+        if p.end == "raise":
+            continue
+        for ev, conds, _ in walk_events(p):
+            for e in hd_sx.exprs_of(ev) + ([p.ret] if ev is p.events[-1] and isinstance(p.ret, ast.AST) else []):
+                for c in ast.walk(e):
+                    if not (isinstance(c, ast.Call) and au.call_tail(c) == "ArrayAttribute"):
+                        continue
+                    m = dict(zip(ips, c.args))
+                    m.update({k.arg: k.value for k in c.keywords if k.arg})
+                    N = m.get(ips[1]) if len(ips) > 1 else None
+                    if N is None:
+                        und.append("ArrayAttribute(...) without a size")
+                        continue
+                    n += 1
+                    s = src(N)
+                    if s in ("len(self)", "self.size"):
+                        continue
+                    # an explicit size given by the caller
+                    explicit = [src(t) for t, pol in conds if isinstance(t, ast.Compare) and len(t.ops) == 1 and isinstance(t.comparators[0], ast.Constant)
+                                and t.comparators[0].value is None and isinstance(t.left, ast.Name) and t.left.id in size_params
+                                and pol == isinstance(t.ops[0], (ast.IsNot, ast.NotEq)) and _has_name(N, t.left.id)]
+                    if explicit:
+                        continue
+                    if isinstance(N, ast.Constant) or (isinstance(N, ast.Name) and N.id in size_params) or (isinstance(N, ast.Call) and au.call_tail(N) == "int" and not _has_name(N, "self")):
+                        bad.append(f"a dense attribute is created with `{s}` rows although no size was given")
+                    else:
+                        und.append(f"a dense attribute is created with `{s}` rows")
+    if bad:
+        ctx.fail("C05-C1", site, "dense attributes are not created with the container's current size", "; ".join(sorted(set(bad))))
+    elif und or n == 0:
+        ctx.undecided("C05-C1", site, "create_attribute: the size given to ArrayAttribute was not recognised as len(self)", "; ".join(sorted(set(und))))
+    else:
+        ctx.ok("C05-C1", site, "dense attributes sized by the container")
+
+
+def _strip_array(e):
+    """strip shape / dtype wrappers: np.array(x), np.asarray(x), list(x), x.reshape(..), x.astype(..)"""
+    while True:
+        if isinstance(e, ast.Call) and isinstance(e.func, ast.Attribute) and e.func.attr in ("reshape", "astype", "squeeze", "copy") \
+                and src(e.func.value) not in ("np", "numpy"):
+            e = e.func.value
+        elif isinstance(e, ast.Call) and au.call_tail(e) in ("array", "asarray", "list", "tuple", "stack", "vstack") and e.args:
+            e = e.args[0]
+        else:
+            return e
+
+
+def c1_export(ctx):
+    """sparse export: full(container_size, default) then every stored item written at its index; computed from the current entries"""
+    fn, site, ps = _paths(ctx, "C05-C1", MA, "Attribute.as_array")
+    if ps is None:
+        return
+    params = au.params(fn, skip_self=True)
+    size = params[0] if params else None
+    bad, und, n_ok = [], [], 0
+    for p in ps:
+        if p.end != "return" or p.ret is None:
+            if p.end == "fall":
+                und.append("a path returns nothing")
+            continue
+        fulls = [c for c in ast.walk(p.ret) if _np_call(c, ("full",))] or [c for c in ast.walk(p.ret) if _np_call(c, ("empty", "zeros"))]
+        reads_data = any(au.is_self_attr(x, "_data") for ev, _, _ in walk_events(p) for e in hd_sx.exprs_of(ev) for x in ast.walk(e)) \
+            or any(au.is_self_attr(x, "_data") for t, _ in p.conds for x in ast.walk(t)) or any(au.is_self_attr(x, "_data") for x in ast.walk(p.ret))
+        memo = sorted(_self_fields(p.ret) - BASIC_FIELDS)
+        if memo and not fulls and not reads_data:
+            bad.append((f"sparse as_array answers from self.{memo[0]}, an array kept from an earlier call, without reading the stored entries",
+                        "__getitem__ hands out the stored vectors themselves: an in-place update (attr[i][j] = x) changes an entry without "
+                        "passing through __setitem__, so a remembered export is stale while entry-by-entry reads (and the dense storage) see the new value"))
+            continue
+        if not fulls:
+            und.append(f"returns `{src(p.ret)[:80]}`")
+            continue
+        blk = fulls[0]
+        r = _default_block(blk, lambda e: _rows(e, "S", (size,)), _fills_of(p))
+        if r is not True:
+            if r is None:
+                und.append("the exported array is not np.full((size, elemsize), default)")
+            else:
+                bad.append((f"sparse as_array starts from a block with {r[1]}", "indices never written must read the default in the export"))
+            continue
+        key_blk = src(blk)
+        scatter = None
+        for ev, conds, loops in walk_events(p):
+            if not (ev.kind == "store" and isinstance(ev.a, ast.Subscript) and src(ev.a.value) == key_blk):
+                continue
+            idx = ev.a.slice.elts[0] if isinstance(ev.a.slice, ast.Tuple) and ev.a.slice.elts else ev.a.slice
+            if loops:
+                lp = loops[-1]
+                it = src(lp.iter)
+                if it == "self._data.items()" and isinstance(lp.target, ast.Tuple) and len(lp.target.elts) == 2 and all(isinstance(x, ast.Name) for x in lp.target.elts):
+                    i, x = (e.id for e in lp.target.elts)
+                    val_ok = src(_strip_array(ev.b)) == x
+                elif it in ("self._data", "self._data.keys()") and isinstance(lp.target, ast.Name):
+                    i = lp.target.id
+                    val_ok = src(_strip_array(ev.b)) == f"self._data[{i}]"
+                else:
+                    scatter = ("und", f"stores inside a loop over `{it}`")
+                    continue
+                guarded = bool(ev.nconds) and any(_has_name(t, i) for t, _ in conds[-ev.nconds:])
+                ri = _rows(idx, "I", (i,))
+                if ri is True and val_ok and not guarded:
+                    scatter = ("ok",)
+                elif ri not in (True, None):
+                    scatter = ("bad", f"the item stored under a key is written at index `{src(idx).replace(i, 'key')}`")
+                elif not val_ok and ri is True:
+                    scatter = ("und", f"writes `{src(ev.b)}` at the key")
+                else:
+                    scatter = ("und", "the per-item store is conditional or not indexed by the key")
+            else:
+                # vectorised scatter: out[list(keys), :] = array(list(values))
+                ki, vi = _strip_array(idx), _strip_array(ev.b)
+                if src(ki) in ("self._data.keys()", "self._data") and src(vi) == "self._data.values()":
+                    scatter = ("ok",)
+                else:
+                    scatter = ("und", f"block assignment `[{src(idx)[:40]}] = {src(ev.b)[:40]}`")
+        if scatter is None:
+            # nothing stored: fine only on a path where the dictionary is known to be empty
+            empty = any(src(t) in ("len(self._data)", "self._data") and not pol or
+                        (isinstance(t, ast.Compare) and "len(self._data)" in src(t)) for t, pol in p.conds)
+            handed = any(ev.kind in ("call", "other", "loop") for ev, _, _ in walk_events(p))
+            if empty:
+                n_ok += 1
+            elif handed:
+                und.append("the stored items are written in a way that is not read")
+            else:
+                bad.append(("sparse as_array does not write the stored items into the exported array",
+                            "array export of the sparse storage must give the same answers as reading entry by entry"))
+        elif scatter[0] == "ok":
+            n_ok += 1
+        elif scatter[0] == "bad":
+            bad.append((f"sparse as_array: {scatter[1]}", "array export of the sparse storage must give the same answers as reading entry by entry"))
+        else:
+            und.append(scatter[1])
+    for c, w in dict(bad).items():
+        ctx.fail("C05-C1", site, c, w)
+    if not bad and (und or n_ok == 0):
+        ctx.undecided("C05-C1", site, "sparse as_array: not recognised as `full(default)` overwritten by every stored item at its index", "; ".join(sorted(set(und))))
+    elif not bad:
+        ctx.ok("C05-C1", site, "sparse export = default block overwritten by every stored item")
